@@ -1,6 +1,13 @@
 (* C01: the fixed lifecycle model keeps its invariant and never runs into undefined behaviour.
    Specifications of the mutually recursive functions (everything a callback can reach), proved
-   by induction on the fuel; scope: histories without getaddrinfo/gethostbyname (nohost). *)
+   by induction on the fuel, for all seven entry points.
+
+   host_query (getaddrinfo / gethostbyname): a function that is handed a closure ending in
+   KHost o (host_callback with argument o) is handed one of the answers o waits for; its frame
+   (FrameG (dg (kbot k))) says that "remaining - number of linked queries pointing at o" went
+   down by exactly one and that o stays alive while that difference is positive.  The function
+   that works on a host_query waiting for nothing (next_lookup, end_hquery) owns it (HOwn) and
+   leaves it released or waiting for exactly the queries that point at it (settled). *)
 From Coq Require Import List ZArith Lia Bool Arith.
 Import ListNotations.
 From CAres.Base Require Import Outcome.
@@ -13,13 +20,29 @@ Hypothesis Hfix : cf_fix cf = all_fixed.
 
 Definition post (s : state) (L : list obj) : unit -> state -> Prop := fun _ s' => Inv s' /\ Frame s s' L.
 Definition postA {A} (s : state) (L : list obj) : A -> state -> Prop := fun _ s' => Inv s' /\ Frame s s' L.
+(* for the functions that are handed a closure: if it ends in a host_query, they deliver (or link) one
+   of the answers that host_query waits for *)
+Definition postG (g : option obj) (s : state) (L : list obj) : unit -> state -> Prop :=
+  fun _ s' => Inv s' /\ FrameG (dg g) s s' L.
+Definition postGA {A} (g : option obj) (s : state) (L : list obj) : A -> state -> Prop :=
+  fun _ s' => Inv s' /\ FrameG (dg g) s s' L.
+(* "&hquery->qid_a": the id goes into the host_query the closure ends in *)
+Definition QdOk (qd : option (obj * bool)) (k : cbk) : Prop :=
+  match qd with Some (o, _) => kbot k = Some o | None => True end.
+(* a host_query that is not waiting for anything, handed to the function that goes on with it *)
+Definition HOwn (s : state) (o : obj) (h : hostq) : Prop :=
+  cell_of s o = Some (CHost h) /\ h_remaining h = 0 /\ nohost (h_cb h) /\ Own s (cobjs (h_cb h)).
+Definition postH (s : state) (o : obj) (h : hostq) : unit -> state -> Prop :=
+  fun _ s' => Inv s' /\ Frame s s' (o :: cobjs (h_cb h)) /\ settled s' o (h_cb h).
 
 Record Specs (f : nat) : Prop := {
-  sp_invoke : forall k r s, Inv s -> Own s (cobjs k) -> nohost k -> safe (invoke cf f k r) s (post s (cobjs k));
-  sp_run_script : forall sc s, Inv s -> (forall c, In c sc -> nohost_call c) -> safe (run_script cf f sc) s (post s []);
-  sp_api : forall c s, Inv s -> nohost_call c -> safe (api cf f c) s (post s []);
-  sp_query_nolock : forall k s, Inv s -> Own s (cobjs k) -> nohost k -> safe (query_nolock cf f k None) s (postA s (cobjs k));
-  sp_send_nolock : forall k pr s, Inv s -> Own s (cobjs k) -> nohost k -> safe (send_nolock cf f k pr None) s (postA s (cobjs k));
+  sp_invoke : forall k r s, Inv s -> Own s (cobjs k) -> GivenOk s (kbot k) -> safe (invoke cf f k r) s (postG (kbot k) s (cobjs k));
+  sp_run_script : forall sc s, Inv s -> safe (run_script cf f sc) s (post s []);
+  sp_api : forall c s, Inv s -> safe (api cf f c) s (post s []);
+  sp_query_nolock : forall k qd s, Inv s -> Own s (cobjs k) -> GivenOk s (kbot k) -> QdOk qd k ->
+      safe (query_nolock cf f k qd) s (postGA (kbot k) s (cobjs k));
+  sp_send_nolock : forall k pr qd s, Inv s -> Own s (cobjs k) -> GivenOk s (kbot k) -> QdOk qd k ->
+      safe (send_nolock cf f k pr qd) s (postGA (kbot k) s (cobjs k));
   sp_send_query : forall qo s, Inv s -> In qo (linked s) -> safe (send_query cf f qo) s (postA s []);
   sp_send_query_write : forall qo op s, Inv s -> In qo (linked s) -> safe (send_query_write cf f qo op) s (postA s []);
   sp_requeue_query : forall qo st inc df r s, InvX (Some qo) s -> In qo (linked s) ->
@@ -39,36 +62,35 @@ Record Specs (f : nat) : Prop := {
   sp_cancel_loop : forall n s, Inv s ->
       safe (cancel_loop_fixed cf f n) s
            (fun _ s' => Inv s' /\ Frame s s' [] /\ forall a qo l r, st_lists s' <> a :: (qo :: l) :: r);
-  sp_search_int : forall k names s, Inv s -> Own s (cobjs k) -> nohost k -> safe (search_int cf f k names) s (postA s (cobjs k));
-  sp_search_next : forall o k l nd s, Inv s -> Own s (o :: cobjs k) -> nohost k ->
+  sp_search_int : forall k names s, Inv s -> Own s (cobjs k) -> GivenOk s (kbot k) ->
+      safe (search_int cf f k names) s (postGA (kbot k) s (cobjs k));
+  sp_search_next : forall o k l nd s, Inv s -> Own s (o :: cobjs k) -> GivenOk s (kbot k) ->
       safe (search_next cf f o k l nd) s
-           (fun r s' => Inv s' /\ Frame s s' (if snd r then o :: cobjs k else [])
-                        /\ (snd r = false -> Own s' (o :: cobjs k)));
-  sp_search_callback : forall o k cs l nd r s, Inv s -> Own s (o :: cobjs k) -> nohost k ->
-      safe (search_callback cf f o k cs l nd r) s (post s (o :: cobjs k));
-  sp_end_squery : forall o k r s, Inv s -> Own s (o :: cobjs k) -> nohost k -> safe (end_squery cf f o k r) s (post s (o :: cobjs k));
-  sp_addr_next_lookup : forall o k l s, Inv s -> Own s (o :: cobjs k) -> nohost k ->
-      safe (addr_next_lookup cf f o k l) s (post s (o :: cobjs k));
-  sp_addr_callback : forall o k l r s, Inv s -> Own s (o :: cobjs k) -> nohost k ->
-      safe (addr_callback cf f o k l r) s (post s (o :: cobjs k));
-  sp_end_aquery : forall o k r s, Inv s -> Own s (o :: cobjs k) -> nohost k -> safe (end_aquery cf f o k r) s (post s (o :: cobjs k))
+           (fun r s' => Inv s' /\ if snd r then FrameG (dg (kbot k)) s s' (o :: cobjs k)
+                                   else Frame s s' [] /\ Own s' (o :: cobjs k) /\ GivenOk s' (kbot k)
+                                        /\ zeqb (fst r) ARES_SUCCESS = false);
+  sp_search_callback : forall o k cs l nd r s, Inv s -> Own s (o :: cobjs k) -> GivenOk s (kbot k) ->
+      safe (search_callback cf f o k cs l nd r) s (postG (kbot k) s (o :: cobjs k));
+  sp_end_squery : forall o k r s, Inv s -> Own s (o :: cobjs k) -> GivenOk s (kbot k) ->
+      safe (end_squery cf f o k r) s (postG (kbot k) s (o :: cobjs k));
+  sp_addr_next_lookup : forall o k l s, Inv s -> Own s (o :: cobjs k) -> GivenOk s (kbot k) ->
+      safe (addr_next_lookup cf f o k l) s (postG (kbot k) s (o :: cobjs k));
+  sp_addr_callback : forall o k l r s, Inv s -> Own s (o :: cobjs k) -> GivenOk s (kbot k) ->
+      safe (addr_callback cf f o k l r) s (postG (kbot k) s (o :: cobjs k));
+  sp_end_aquery : forall o k r s, Inv s -> Own s (o :: cobjs k) -> GivenOk s (kbot k) ->
+      safe (end_aquery cf f o k r) s (postG (kbot k) s (o :: cobjs k));
+  sp_host_next_lookup : forall o st s h, Inv s -> HOwn s o h -> safe (host_next_lookup cf f o st) s (postH s o h);
+  sp_host_next_dns_lookup : forall o s h, Inv s -> HOwn s o h -> safe (host_next_dns_lookup cf f o) s (postH s o h);
+  sp_host_callback : forall o r s, Inv s -> GivenOk s (Some o) -> safe (host_callback cf f o r) s (postG (Some o) s []);
+  sp_end_hquery : forall o st s h, Inv s -> HOwn s o h -> safe (end_hquery cf f o st) s (postH s o h)
 }.
 
 (* ---- small helpers ---- *)
-Lemma frame_core_l s s1 s' L : core_eq s s1 -> Frame s1 s' L -> Frame s s' L.
-Proof.
-  intros E F. pose proof (frame_trans _ _ _ _ _ (ce_frame_refl _ _ E) F) as G. exact G.
-Qed.
-
-Lemma frame_core_r s s1 s' L : Frame s s1 L -> core_eq s1 s' -> Frame s s' L.
-Proof.
-  intros F E. pose proof (frame_trans _ _ _ _ _ F (ce_frame_refl _ _ E)) as G. rewrite app_nil_r in G. exact G.
-Qed.
-
 Lemma inv_core x s s' : core_eq s s' -> st_scripts s' = st_scripts s -> InvX x s -> InvX x s'.
-Proof.
-  intros E Es I. apply (ce_inv x s s' E); auto. rewrite Es. exact (inv_scripts _ _ I).
-Qed.
+Proof. intros E _ I. apply (ce_inv x s s' E); auto. Qed.
+
+Lemma ce_refl_frame x s s' : InvX x s -> core_eq s s' -> Frame s s' [].
+Proof. intros I E. apply ce_frame_refl; auto. exact (inv_heap _ _ I). Qed.
 
 (* at fuel 0 everything is out of fuel *)
 Lemma specs_O : Specs 0.
@@ -79,94 +101,91 @@ Qed.
 (* ---- steps that only touch tape / trace / scripts ---- *)
 Lemma take_script_ok x t s :
   InvX x s ->
-  exists sc s', take_script t s = Ok (sc, s') /\ core_eq s s' /\ InvX x s' /\ (forall c, In c sc -> nohost_call c).
+  exists sc s', take_script t s = Ok (sc, s') /\ core_eq s s' /\ InvX x s'.
 Proof.
   intros I. unfold take_script. destruct (lookup t (st_scripts s)) as [l|] eqn:E.
   - exists l, (set_scripts (remove_key t (st_scripts s)) s). split; [reflexivity|]. split; [apply core_eq_set_scripts|].
-    split.
-    + apply (ce_inv x s _ (core_eq_set_scripts _ s)); auto. simpl. intros t' l' c Hl Hc.
-      rewrite lookup_remove_key in Hl. destruct (Nat.eqb t' t); [discriminate|]. exact (inv_scripts _ _ I _ _ _ Hl Hc).
-    + intros c Hc. exact (inv_scripts _ _ I _ _ _ E Hc).
-  - exists [], s. split; [reflexivity|]. split; [apply core_eq_refl|]. split; auto. intros c [].
+    apply (ce_inv x s _ (core_eq_set_scripts _ s)); auto.
+  - exists [], s. split; [reflexivity|]. split; [apply core_eq_refl|]. auto.
 Qed.
 
 Lemma own_core s s' L : core_eq s s' -> Own s L -> Own s' L.
 Proof. apply ce_own. Qed.
 
 (* ---- invoke ---- *)
-Lemma invoke_step f : Specs f -> forall k r s, Inv s -> Own s (cobjs k) -> nohost k ->
-  safe (invoke cf (S f) k r) s (post s (cobjs k)).
+Lemma invoke_step f : Specs f -> forall k r s, Inv s -> Own s (cobjs k) -> GivenOk s (kbot k) ->
+  safe (invoke cf (S f) k r) s (postG (kbot k) s (cobjs k)).
 Proof.
-  intros IH k r s I O Hn. destruct k as [t| |w o k'|o k' cs l nd|o k' l|o]; simpl.
+  intros IH k r s I O Hg. destruct k as [t| |w o k'|o k' cs l nd|o k' l|o]; simpl.
   - (* KUser *)
     apply safe_bind. apply safe_emit.
     set (s1 := set_trace (EvCb t (r_status r) :: st_trace s) s).
     assert (E1 : core_eq s s1) by apply core_eq_set_trace.
     assert (I1 : Inv s1) by (apply (inv_core _ _ _ E1); auto).
-    destruct (take_script_ok _ t s1 I1) as [sc [s2 [E2 [C2 [I2 Hsc]]]]].
+    destruct (take_script_ok _ t s1 I1) as [sc [s2 [E2 [C2 I2]]]].
     apply safe_bind. eapply safe_of_run; [exact E2|].
     eapply safe_mono; [apply (sp_run_script _ IH); auto|].
     intros [] s' [I' F']. split; auto. simpl.
     apply (frame_core_l _ _ _ _ (core_eq_trans _ _ _ E1 C2) F').
   - (* KProbe *)
-    apply safe_ret. split; auto. apply frame_refl.
+    apply safe_ret. split; auto. apply (frame_refl _ _ I).
   - (* KWrap *)
-    simpl in O, Hn. destruct (own_cons _ _ _ O) as [Hc [Hr [Hni O']]].
+    simpl in O, Hg. destruct (own_cons _ _ _ O) as [Hc [Hr [Hni O']]].
     apply safe_bind. eapply safe_touch; [exact (inv_heap _ _ I)|exact Hc|].
     apply safe_bind. eapply safe_mono; [apply (sp_invoke _ IH); auto|].
     intros [] s1 [I1 F1].
-    pose proof (fr_cell _ _ _ F1 _ _ Hc Hr Hni) as [Hc1 Hr1].
+    pose proof (fr_cell _ _ _ _ F1 _ _ Hc Hr Hni) as [Hc1 Hr1].
     eapply safe_free; [exact (inv_heap _ _ I1)|exact Hc1|].
-    destruct (free_unrooted_ok None s1 o COpaque I1 Hc1 ltac:(discriminate) Hr1) as [I2 [F2 _]].
+    destruct (free_unrooted_ok None s1 o COpaque I1 Hc1 ltac:(discriminate) ltac:(discriminate) Hr1) as [I2 [F2 _]].
     split; [exact I2|]. simpl.
-    eapply frame_weaken; [exact (frame_trans _ _ _ _ _ F1 F2)|].
+    eapply frame_weaken; [exact (frame_trans_gl _ _ _ _ _ _ F1 F2)|].
     intros y Hy. apply in_app_or in Hy. simpl. destruct Hy as [Hy|[Hy|[]]]; auto.
-  - (* KSearch *) simpl in O, Hn. apply (sp_search_callback _ IH); auto.
-  - (* KAddr *) simpl in O, Hn. apply (sp_addr_callback _ IH); auto.
-  - (* KHost *) destruct Hn.
+  - (* KSearch *) simpl in O, Hg. apply (sp_search_callback _ IH); auto.
+  - (* KAddr *) simpl in O, Hg. apply (sp_addr_callback _ IH); auto.
+  - (* KHost *) simpl in Hg. apply (sp_host_callback _ IH); auto.
 Qed.
 
-Lemma run_script_step f : Specs f -> forall sc s, Inv s -> (forall c, In c sc -> nohost_call c) ->
+Lemma run_script_step f : Specs f -> forall sc s, Inv s ->
   safe (run_script cf (S f) sc) s (post s []).
 Proof.
-  intros IH sc s I Hsc. destruct sc as [|c rest]; simpl.
-  - apply safe_ret. split; auto. apply frame_refl.
-  - apply safe_bind. eapply safe_mono; [apply (sp_api _ IH); auto; apply Hsc; left; auto|].
+  intros IH sc s I. destruct sc as [|c rest]; simpl.
+  - apply safe_ret. split; auto. apply (frame_refl _ _ I).
+  - apply safe_bind. eapply safe_mono; [apply (sp_api _ IH); auto|].
     intros [] s1 [I1 F1].
-    eapply safe_mono; [apply (sp_run_script _ IH); auto; intros c' Hc'; apply Hsc; right; auto|].
+    eapply safe_mono; [apply (sp_run_script _ IH); auto|].
     intros [] s2 [I2 F2]. split; auto. exact (frame_trans _ _ _ _ _ F1 F2).
 Qed.
 
-Lemma end_squery_step f : Specs f -> forall o k r s, Inv s -> Own s (o :: cobjs k) -> nohost k ->
-  safe (end_squery cf (S f) o k r) s (post s (o :: cobjs k)).
+Lemma end_squery_step f : Specs f -> forall o k r s, Inv s -> Own s (o :: cobjs k) -> GivenOk s (kbot k) ->
+  safe (end_squery cf (S f) o k r) s (postG (kbot k) s (o :: cobjs k)).
 Proof.
-  intros IH o k r s I O Hn. simpl.
+  intros IH o k r s I O Hg. simpl.
   destruct (own_cons _ _ _ O) as [Hc [Hr [Hni O']]].
   apply safe_bind. eapply safe_touch; [exact (inv_heap _ _ I)|exact Hc|].
   apply safe_bind. eapply safe_mono; [apply (sp_invoke _ IH); auto|].
   intros [] s1 [I1 F1].
-  pose proof (fr_cell _ _ _ F1 _ _ Hc Hr Hni) as [Hc1 Hr1].
+  pose proof (fr_cell _ _ _ _ F1 _ _ Hc Hr Hni) as [Hc1 Hr1].
   apply safe_bind. eapply safe_touch; [exact (inv_heap _ _ I1)|exact Hc1|].
   eapply safe_free; [exact (inv_heap _ _ I1)|exact Hc1|].
-  destruct (free_unrooted_ok None s1 o COpaque I1 Hc1 ltac:(discriminate) Hr1) as [I2 [F2 _]].
+  destruct (free_unrooted_ok None s1 o COpaque I1 Hc1 ltac:(discriminate) ltac:(discriminate) Hr1) as [I2 [F2 _]].
   split; [exact I2|].
-  eapply frame_weaken; [exact (frame_trans _ _ _ _ _ F1 F2)|].
+  eapply frame_weaken; [exact (frame_trans_gl _ _ _ _ _ _ F1 F2)|].
   intros y Hy. apply in_app_or in Hy. simpl. destruct Hy as [Hy|[Hy|[]]]; auto.
 Qed.
 
-Lemma end_aquery_step f : Specs f -> forall o k r s, Inv s -> Own s (o :: cobjs k) -> nohost k ->
-  safe (end_aquery cf (S f) o k r) s (post s (o :: cobjs k)).
+Lemma end_aquery_step f : Specs f -> forall o k r s, Inv s -> Own s (o :: cobjs k) -> GivenOk s (kbot k) ->
+  safe (end_aquery cf (S f) o k r) s (postG (kbot k) s (o :: cobjs k)).
 Proof.
-  intros IH o k r s I O Hn. simpl.
+  intros IH o k r s I O Hg. simpl.
   destruct (own_cons _ _ _ O) as [Hc [Hr [Hni O']]].
   apply safe_bind. eapply safe_touch; [exact (inv_heap _ _ I)|exact Hc|].
   apply safe_bind. eapply safe_mono; [apply (sp_invoke _ IH); auto|].
   intros [] s1 [I1 F1].
-  pose proof (fr_cell _ _ _ F1 _ _ Hc Hr Hni) as [Hc1 Hr1].
+  pose proof (fr_cell _ _ _ _ F1 _ _ Hc Hr Hni) as [Hc1 Hr1].
   eapply safe_free; [exact (inv_heap _ _ I1)|exact Hc1|].
-  destruct (free_unrooted_ok None s1 o COpaque I1 Hc1 ltac:(discriminate) Hr1) as [I2 [F2 _]].
+  destruct (free_unrooted_ok None s1 o COpaque I1 Hc1 ltac:(discriminate) ltac:(discriminate) Hr1) as [I2 [F2 _]].
   split; [exact I2|].
-  eapply frame_weaken; [exact (frame_trans _ _ _ _ _ F1 F2)|].
+  eapply frame_weaken; [exact (frame_trans_gl _ _ _ _ _ _ F1 F2)|].
   intros y Hy. apply in_app_or in Hy. simpl. destruct Hy as [Hy|[Hy|[]]]; auto.
 Qed.
 
@@ -189,20 +208,20 @@ Lemma complete_query_step f : Specs f -> forall qo r s, InvX (Some qo) s -> In q
   safe (complete_query cf (S f) qo r) s (post s []).
 Proof.
   intros IH qo r s I Hl. simpl. rewrite fx_unlink_true.
-  destruct (inv_query _ _ I _ Hl) as [q [Hq Hnh]].
+  destruct (inv_query _ _ I _ Hl) as [q Hq].
   destruct (detach_query_ok _ _ _ _ I (or_intror eq_refl) Hl Hq)
     as [s1 [E1 [I1 [F1 [_ [_ [_ [_ [_ [_ [Hq1 [Hr1 [O1 _]]]]]]]]]]]]].
   apply safe_bind. eapply safe_of_run; [exact E1|].
   apply safe_bind. eapply safe_get_query; [exact (inv_heap _ _ I1)|exact Hq1|].
-  apply safe_bind. simpl. eapply safe_mono; [apply (sp_invoke _ IH); auto|].
+  apply safe_bind. simpl. eapply safe_mono; [apply (sp_invoke _ IH); auto; exact (fd_given _ _ _ F1)|].
   intros [] s2 [I2 F2].
-  pose proof (fr_cell _ _ _ F2 _ _ Hq1 Hr1 (opaque_not_query _ _ _ _ O1 Hq1)) as [Hq2 Hr2].
+  pose proof (fr_cell _ _ _ _ F2 _ _ Hq1 Hr1 (opaque_not_query _ _ _ _ O1 Hq1)) as [Hq2 Hr2].
   unfold release_query. eapply safe_free; [exact (inv_heap _ _ I2)|exact Hq2|].
-  destruct (free_unrooted_ok None s2 qo _ I2 Hq2 ltac:(discriminate) Hr2) as [I3 [F3 _]].
+  destruct (free_unrooted_ok None s2 qo _ I2 Hq2 ltac:(discriminate) ltac:(discriminate) Hr2) as [I3 [F3 _]].
   split; [exact I3|].
-  eapply frame_shrink; [exact (frame_trans _ _ _ _ _ F1 (frame_trans _ _ _ _ _ F2 F3))|].
+  eapply frame_shrink; [exact (frame_detach_trans _ _ _ _ _ F1 (frame_trans_gl _ _ _ _ _ _ F2 F3))|].
   intros y c Hy Hc. simpl in Hy. apply in_app_or in Hy. destruct Hy as [Hy|[Hy|[]]].
-  - right; right. eapply chain_of_linked; eauto.
+  - right; right; left. eapply chain_of_linked; eauto.
   - subst. left. exact Hl.
 Qed.
 
@@ -210,7 +229,7 @@ Lemma end_query_step f : Specs f -> forall qo st r s, InvX (Some qo) s -> In qo 
   safe (end_query cf (S f) qo st r) s (post s []).
 Proof.
   intros IH qo st r s I Hl. simpl.
-  destruct (inv_query _ _ I _ Hl) as [q [Hq Hnh]].
+  destruct (inv_query _ _ I _ Hl) as [q Hq].
   apply safe_bind. eapply safe_get_query; [exact (inv_heap _ _ I)|exact Hq|].
   apply safe_bind. apply safe_pop. intros e rest Et.
   set (s1 := set_tape rest s).
@@ -225,7 +244,7 @@ Lemma requeue_query_step f : Specs f -> forall qo st inc df r s, InvX (Some qo) 
   safe (requeue_query cf (S f) qo st inc df r) s (postA s []).
 Proof.
   intros IH qo st inc df r s I Hl. simpl.
-  destruct (inv_query _ _ I _ Hl) as [q [Hq Hnh]].
+  destruct (inv_query _ _ I _ Hl) as [q Hq].
   destruct (remove_from_conn_ok _ _ _ _ I (or_intror eq_refl) Hl Hq)
     as [s1 [E1 [I1 [F1 [El [_ [_ [_ [_ [_ [_ [_ [_ [_ Hc1]]]]]]]]]]]]]].
   apply safe_bind. eapply safe_of_run; [exact E1|].
@@ -283,12 +302,12 @@ Proof.
   intros IH n co st s c I Hc Hr. destruct n as [|n']; simpl; [apply safe_fail|].
   apply safe_bind. eapply safe_get_conn; [exact (inv_heap _ _ I)|exact Hc|].
   destruct (c_queries c) as [|qo rest] eqn:Eq.
-  - apply safe_ret. split; auto. split; [apply frame_refl|]. exists c. auto.
+  - apply safe_ret. split; auto. split; [apply (frame_refl _ _ I)|]. exists c. auto.
   - assert (Hqo : In qo (c_queries c)) by (rewrite Eq; left; auto).
     destruct (inv_connq _ _ I _ _ _ Hc Hqo) as [Hl _].
     apply safe_bind. eapply safe_mono; [apply (sp_requeue_query _ IH); [apply inv_weaken; exact I|exact Hl]|].
     intros z s1 [I1 F1].
-    pose proof (fr_cell _ _ _ F1 _ _ Hc Hr (fun H => H)) as [c1 [Hc1 [Hr1 _]]].
+    pose proof (fr_cell _ _ _ _ F1 _ _ Hc Hr (fun H => H)) as [c1 [Hc1 [Hr1 _]]].
     eapply safe_mono; [apply (sp_requeue_conn_queries _ IH n' co st s1 c1); auto|].
     intros [] s2 [I2 [F2 Hex]]. split; auto. split; auto. exact (frame_trans _ _ _ _ _ F1 F2).
 Qed.
@@ -303,13 +322,14 @@ Proof.
   set (s1 := set_conns (remove_nat co (st_conns s)) s) in *.
   assert (Hc1 : cell_of s1 co = Some (CConn c)) by exact Hc.
   assert (Hr1 : ~ rooted s1 co).
-  { intros [H|[H|H]].
-    - destruct (inv_query _ _ I1 _ H) as [q [Hq _]]. rewrite Hc1 in Hq. discriminate.
+  { intros [H|[H|[H|H]]].
+    - destruct (inv_query _ _ I1 _ H) as [q Hq]. rewrite Hc1 in Hq. discriminate.
     - exact (Hn1 H).
-    - destruct (inv_chain _ _ I1) as [_ Hop]. rewrite (Hop _ H) in Hc1. discriminate. }
+    - destruct (inv_chain _ _ I1) as [_ Hop]. rewrite (Hop _ H) in Hc1. discriminate.
+    - destruct (hi_objs _ (inv_hosts _ _ I1)) as [_ Hop]. destruct (Hop _ H) as [Hop' _]. rewrite Hop' in Hc1. discriminate. }
   apply safe_bind. eapply safe_mono; [apply (sp_requeue_conn_queries _ IH f co st s1 c); auto|].
   intros [] s2 [I2 [F2 [c2 [Hc2 Eq2]]]].
-  pose proof (fr_cell _ _ _ F2 _ _ Hc1 Hr1 (fun H => H)) as [c2' [Hc2' [Hr2 _]]].
+  pose proof (fr_cell _ _ _ _ F2 _ _ Hc1 Hr1 (fun H => H)) as [c2' [Hc2' [Hr2 _]]].
   rewrite Hc2 in Hc2'. inversion Hc2'; subst c2'. clear Hc2'.
   assert (Hn2 : ~ In co (st_conns s2)) by (intros H; apply Hr2; right; left; exact H).
   apply safe_bind. eapply safe_get_conn; [exact (inv_heap _ _ I2)|exact Hc2|].
@@ -380,7 +400,7 @@ Proof.
   - (* TKE *)
     apply safe_bind. apply safe_pop. intros e rest Et. apply safe_ret.
     assert (E1 : core_eq s (set_tape rest s)) by apply core_eq_set_tape.
-    split; [apply (inv_core _ _ _ E1); auto|apply ce_frame_refl; exact E1].
+    split; [apply (inv_core _ _ _ E1); auto|apply (ce_refl_frame _ _ _ I E1)].
 Qed.
 
 Lemma check_cleanup_step f : Specs f -> forall s, Inv s -> safe (check_cleanup cf (S f)) s (post s []).
@@ -399,7 +419,7 @@ Proof.
   intros IH n s I. destruct n as [|n']; simpl; [apply safe_fail|].
   apply safe_bind. apply safe_get.
   destruct (st_lists s) as [|a [|[|qo l] r]] eqn:El;
-    try (apply safe_ret; split; [auto|split; [apply frame_refl|intros a' qo' l' r' H; rewrite El in H; discriminate]]).
+    try (apply safe_ret; split; [auto|split; [apply (frame_refl _ _ I)|intros a' qo' l' r' H; rewrite El in H; discriminate]]).
   assert (Hl : In qo (linked s)).
   { unfold linked. rewrite El. simpl. apply in_or_app. right. left. reflexivity. }
   apply safe_bind. eapply safe_mono; [apply (sp_complete_query _ IH); [apply inv_weaken; exact I|exact Hl]|].
@@ -427,8 +447,8 @@ Proof.
   { intros s1 I1 F1. eapply safe_mono; [apply (sp_check_cleanup _ IH); auto|].
     intros [] s2 [I2 F2]. split; auto. exact (frame_trans _ _ _ _ _ F1 F2). }
   destruct (st_lists s) as [|[|q0 l0] rest] eqn:El.
-  - apply safe_bind. apply safe_ret. apply G; auto. apply frame_refl.
-  - apply safe_bind. apply safe_ret. apply G; auto. apply frame_refl.
+  - apply safe_bind. apply safe_ret. apply G; auto. apply (frame_refl _ _ I).
+  - apply safe_bind. apply safe_ret. apply G; auto. apply (frame_refl _ _ I).
   - apply safe_bind. apply safe_bind. apply safe_modify.
     destruct (lists_same_linked None s ([] :: (q0 :: l0) :: rest)) as [I1 [F1 _]]; auto.
     { unfold linked. rewrite El. reflexivity. }
@@ -449,7 +469,7 @@ Lemma send_query_write_step f : Specs f -> forall qo op s, Inv s -> In qo (linke
   safe (send_query_write cf (S f) qo op) s (postA s []).
 Proof.
   intros IH qo op s I Hl. simpl.
-  destruct (inv_query _ _ I _ Hl) as [q [Hq Hnh]].
+  destruct (inv_query _ _ I _ Hl) as [q Hq].
   apply safe_bind. eapply safe_get_query; [exact (inv_heap _ _ I)|exact Hq|].
   apply safe_bind. apply safe_pop. intros e rest Et.
   destruct e; try apply safe_fail.
@@ -511,13 +531,13 @@ Proof.
       assert (HcB : cell_of sB co = Some (CConn cA)) by (rewrite (ce_cell _ _ _ EB); exact HcA).
       destruct (zeqb wrc ARES_SUCCESS).
       - (* written: attach *)
-        destruct (inv_query _ _ IB _ HlB) as [qB [HqB _]].
+        destruct (inv_query _ _ IB _ HlB) as [qB HqB].
         destruct (attach_run sB qo qB co cA tcp IB HlB HqB HinB HcB HnclA) as [sC [EC [IC [FC _]]]].
         apply safe_bind. eapply safe_of_run; [exact EC|].
         assert (FsC : Frame s sC []) by exact (frame_trans _ _ _ _ _ FB FC).
         apply safe_bind. apply safe_bind. apply safe_get.
         destruct (probe_ahead (st_tape sC)).
-        + apply safe_bind. eapply safe_mono; [apply (sp_send_nolock _ IH KProbe true sC IC (own_nil _) Logic.I)|].
+        + apply safe_bind. eapply safe_mono; [apply (sp_send_nolock _ IH KProbe true None sC IC (own_nil _) Logic.I Logic.I)|].
           intros z sD [ID FD]. apply safe_ret. apply safe_ret. split; auto. exact (frame_trans _ _ _ _ _ FsC FD).
         + apply safe_ret. apply safe_ret. split; auto.
       - destruct (zeqb wrc ARES_ENOMEM).
@@ -552,7 +572,7 @@ Proof.
   - (* existing connection *)
     destruct (Hex _ eq_refl) as [Hin [c [Hc Hncl]]].
     apply safe_bind. apply safe_ret.
-    apply (G s1 co c); auto. apply ce_frame_refl. exact E1.
+    apply (G s1 co c); auto. apply (ce_refl_frame _ _ _ I E1).
   - (* a connection was opened *)
     apply safe_bind. apply safe_bind. apply safe_alloc. apply safe_bind. apply safe_modify. apply safe_ret.
     set (c0 := {| c_sock := sock; c_tcp := tcp; c_queries := []; c_reading := false; c_closed := false |}).
@@ -565,7 +585,7 @@ Lemma send_query_step f : Specs f -> forall qo s, Inv s -> In qo (linked s) ->
   safe (send_query cf (S f) qo) s (postA s []).
 Proof.
   intros IH qo s I Hl. simpl.
-  destruct (inv_query _ _ I _ Hl) as [q [Hq Hnh]].
+  destruct (inv_query _ _ I _ Hl) as [q Hq].
   apply safe_bind. eapply safe_get_query; [exact (inv_heap _ _ I)|exact Hq|].
   apply safe_bind. apply safe_peek.
   assert (Dflt : safe (send_query_write cf f qo false) s (postA s [])) by (apply (sp_send_query_write _ IH); auto).
@@ -606,8 +626,8 @@ Qed.
 Lemma link_all_run qo s : link_all qo s = Ok (tt, set_lists (link_lists qo (st_lists s)) s).
 Proof. reflexivity. Qed.
 
-Lemma send_nolock_unfold f k probe :
-  send_nolock cf (S f) k probe None =
+Lemma send_nolock_unfold f k probe qd :
+  send_nolock cf (S f) k probe qd =
   (let! qid := gen_qid 8 in
    let! cached :=
      (if probe then ret None
@@ -631,18 +651,36 @@ Lemma send_nolock_unfold f k probe :
                                      q_tcp := false; q_err := ARES_SUCCESS |}) in
          link_all qo ;;
          modify (fun s => set_byqid ((qid, qo) :: st_byqid s) s) ;;
-         (if fx_qidearly (cf_fix cf) then write_qid None qid else ret tt) ;;
+         (if fx_qidearly (cf_fix cf) then write_qid qd qid else ret tt) ;;
          let! st := send_query cf f qo in
-         (if negb (fx_qidearly (cf_fix cf)) && zeqb st ARES_SUCCESS then write_qid None qid else ret tt) ;;
+         (if negb (fx_qidearly (cf_fix cf)) && zeqb st ARES_SUCCESS then write_qid qd qid else ret tt) ;;
          ret st
      | _ => fail EDESYNC end
    end).
 Proof. reflexivity. Qed.
 
-Lemma send_nolock_step f : Specs f -> forall k pr s, Inv s -> Own s (cobjs k) -> nohost k ->
-  safe (send_nolock cf (S f) k pr None) s (postA s (cobjs k)).
+(* "*qid = id": the host_query the closure ends in is alive (it waits for this query's answer) *)
+Lemma write_qid_ok qd qid k s : Inv s -> QdOk qd k -> (forall o, kbot k = Some o -> exists h, shared_at s o = Some h) ->
+  safe (write_qid qd qid) s (fun _ s' => Inv s' /\ Frame s s' [] /\ linked s' = linked s).
 Proof.
-  intros IH k pr s I O Hn. rewrite send_nolock_unfold. rewrite fx_qidearly_true. simpl negb. cbn [andb write_qid].
+  intros I Hqd Hk. unfold write_qid. destruct qd as [[o aaaa]|].
+  2:{ apply safe_ret. split; auto. split; [apply (frame_refl _ _ I)|reflexivity]. }
+  simpl in Hqd. destruct (Hk _ Hqd) as [h Hs]. destruct (shared_host _ _ _ Hs) as [Hc Hp].
+  unfold get_host. apply safe_bind. apply safe_bind. eapply safe_touch; [exact (inv_heap _ _ I)|exact Hc|].
+  apply safe_ret. eapply safe_store; [exact (inv_heap _ _ I)|exact Hc|].
+  set (h' := if aaaa then h_set_qids (h_qid_a h) qid h else h_set_qids qid (h_qid_aaaa h) h).
+  assert (E1 : h_cb h' = h_cb h) by (unfold h'; destruct aaaa; reflexivity).
+  assert (E2 : h_remaining h' = h_remaining h) by (unfold h'; destruct aaaa; reflexivity).
+  destruct (store_host_shared_ok None s o h h' (dg None) I Hs E1) as [I1 [F1 [_ [_ [Ell _]]]]]; auto.
+  - rewrite E2. exact Hp.
+  - simpl. lia.
+  - simpl. pose proof (hi_cnt _ (inv_hosts _ _ I) _ _ Hs). lia.
+Qed.
+
+Lemma send_nolock_step f : Specs f -> forall k pr qd s, Inv s -> Own s (cobjs k) -> GivenOk s (kbot k) -> QdOk qd k ->
+  safe (send_nolock cf (S f) k pr qd) s (postGA (kbot k) s (cobjs k)).
+Proof.
+  intros IH k pr qd s I O Hg Hqd. rewrite send_nolock_unfold. rewrite fx_qidearly_true. simpl negb. cbn [andb].
   apply safe_bind. apply gen_qid_ok. intros qid s1 E1 Es1 Lk1.
   assert (I1 : Inv s1) by (apply (inv_core _ _ _ E1); auto).
   assert (O1 : Own s1 (cobjs k)) by (apply (own_core _ _ _ E1); auto).
@@ -665,14 +703,15 @@ Proof.
                                                            q_noretry := pr; q_tcp := false; q_err := ARES_SUCCESS |}) in
                                 link_all qo;;
                                 modify (fun s0 => set_byqid ((qid, qo) :: st_byqid s0) s0);;
-                                ret tt;;
+                                write_qid qd qid;;
                                 (let! st := send_query cf f qo in ret tt;; ret st))
                       | _ => fail EDESYNC end
-                  end) s2 (postA s (cobjs k))).
+                  end) s2 (postGA (kbot k) s (cobjs k))).
   { intros cached s2 E2 Es2.
     assert (E02 : core_eq s s2) by (eapply core_eq_trans; eauto).
-    assert (I2 : Inv s2) by (apply (inv_core _ _ _ E2); auto).
+    assert (I2 : Inv s2) by (apply (ce_inv _ _ _ E2); auto).
     assert (O2 : Own s2 (cobjs k)) by (apply (own_core _ _ _ E2); auto).
+    assert (Hg2 : GivenOk s2 (kbot k)) by (apply (given_core _ _ _ E02); auto).
     destruct cached as [r|].
     - apply safe_bind. eapply safe_mono; [apply (sp_invoke _ IH); auto|].
       intros [] s3 [I3 F3]. apply safe_ret. split; auto. exact (frame_core_l _ _ _ _ E02 F3).
@@ -681,6 +720,7 @@ Proof.
       assert (E3 : core_eq s s3) by (eapply core_eq_trans; [exact E02|apply core_eq_set_tape]).
       assert (I3 : Inv s3) by (apply (inv_core _ _ _ E3); auto; simpl; congruence).
       assert (O3 : Own s3 (cobjs k)) by (apply (own_core _ _ _ E3); auto).
+      assert (Hg3 : GivenOk s3 (kbot k)) by (apply (given_core _ _ _ E3); auto).
       destruct (negb (zeqb rc ARES_SUCCESS)).
       + apply safe_bind. eapply safe_mono; [apply (sp_invoke _ IH); auto|].
         intros [] s4 [I4 F4]. apply safe_ret. split; auto. exact (frame_core_l _ _ _ _ E3 F4).
@@ -690,21 +730,26 @@ Proof.
                                                     q_noretry := pr; q_tcp := false; q_err := ARES_SUCCESS |}) in
                         link_all qo;;
                         modify (fun s0 => set_byqid ((qid, qo) :: st_byqid s0) s0);;
-                        ret tt;;
+                        write_qid qd qid;;
                         (let! st := send_query cf f qo in ret tt;; ret st))
-                       s4 (postA s (cobjs k))).
+                       s4 (postGA (kbot k) s (cobjs k))).
         { intros s4 E4 Es4 Lk4.
           assert (I4 : Inv s4) by (apply (inv_core _ _ _ E4); auto).
           assert (O4 : Own s4 (cobjs k)) by (apply (own_core _ _ _ E4); auto).
+          assert (Hg4 : GivenOk s4 (kbot k)) by (apply (given_core _ _ _ E4); auto).
           set (q0 := {| q_qid := qid; q_cb := k; q_conn := None; q_try := 0; q_noretry := pr; q_tcp := false; q_err := ARES_SUCCESS |}).
-          destruct (new_query_ok s4 k qid q0 I4 O4 Hn Lk4 eq_refl eq_refl eq_refl) as [I5 [F5 [Hl5 _]]].
+          destruct (new_query_ok s4 k qid q0 I4 O4 Hg4 Lk4 eq_refl eq_refl eq_refl) as [I5 [F5 [Hl5 [Hq5 [Hsame5 _]]]]].
           apply safe_bind. apply safe_alloc.
           apply safe_bind. eapply safe_of_run; [apply link_all_run|].
           apply safe_bind. apply safe_modify.
-          apply safe_bind. apply safe_ret.
-          apply safe_bind. eapply safe_mono; [apply (sp_send_query _ IH); [exact I5|exact Hl5]|].
-          intros z s6 [I6 F6]. apply safe_bind. apply safe_ret. apply safe_ret. split; auto.
-          pose proof (frame_core_l _ _ _ _ E4 (frame_trans _ _ _ _ _ F5 F6)) as F. rewrite app_nil_r in F. exact F. }
+          apply safe_bind. eapply safe_mono; [apply (write_qid_ok qd qid k _ I5 Hqd)|].
+          { intros o Ek. destruct (hi_ref _ (inv_hosts _ _ I5) _ o Hl5) as [h Hs]; eauto.
+            unfold href. rewrite Hq5. exact Ek. }
+          intros [] s6 [I6 [F6 Ell6]].
+          apply safe_bind. eapply safe_mono; [apply (sp_send_query _ IH); [exact I6|rewrite Ell6; exact Hl5]|].
+          intros z s7 [I7 F7]. apply safe_bind. apply safe_ret. apply safe_ret. split; auto.
+          pose proof (frame_core_l _ _ _ _ E4 (frame_trans_gl _ _ _ _ _ _ F5 (frame_trans _ _ _ _ _ F6 F7))) as F.
+          rewrite app_nil_r in F. exact F. }
         assert (Lk3 : lookup qid (st_byqid s3) = None).
         { destruct E2 as [_ [_ [_ [_ [Eq _]]]]]. simpl. rewrite Eq. exact Lk1. }
         apply safe_bind.
@@ -726,21 +771,22 @@ Proof.
         [apply core_eq_set_tape|reflexivity].
 Qed.
 
-Lemma query_nolock_step f : Specs f -> forall k s, Inv s -> Own s (cobjs k) -> nohost k ->
-  safe (query_nolock cf (S f) k None) s (postA s (cobjs k)).
+Lemma query_nolock_step f : Specs f -> forall k qd s, Inv s -> Own s (cobjs k) -> GivenOk s (kbot k) -> QdOk qd k ->
+  safe (query_nolock cf (S f) k qd) s (postGA (kbot k) s (cobjs k)).
 Proof.
-  intros IH k s I O Hn. simpl.
+  intros IH k qd s I O Hg Hqd. simpl.
   apply safe_bind. apply safe_alloc.
   destruct (alloc_opaque_ok None s I) as [I1 [F1 [Hc1 [Hr1 _]]]].
   set (o := st_next s) in *. set (s1 := alloc_st COpaque s) in *.
   assert (O1 : Own s1 (o :: cobjs k)).
-  { pose proof (own_frame _ _ _ _ O F1 (fun _ _ H => H)) as [On Oc]. split.
+  { pose proof (own_frame _ _ _ _ _ O F1 (fun _ _ H => H)) as [On Oc]. split.
     - constructor; auto. intros Hin. destruct (proj2 O _ Hin) as [Hlive _].
       pose proof (live_lt _ _ _ (inv_heap _ _ I) Hlive). unfold o in *. lia.
     - intros y [<-|Hy]; auto. }
-  eapply safe_mono; [apply (sp_send_nolock _ IH (KWrap WQQuery o k) false s1 I1 O1 Hn)|].
-  intros z s2 [I2 F2]. split; auto.
-  eapply frame_restrict; [exact (frame_trans _ _ _ _ _ F1 F2)|].
+  assert (Hg1 : GivenOk s1 (kbot k)) by (exact (given_frame _ _ _ _ Hg F1)).
+  eapply safe_mono; [apply (sp_send_nolock _ IH (KWrap WQQuery o k) false qd s1 I1 O1 Hg1 Hqd)|].
+  intros z s2 [I2 F2]. split; auto. simpl in F2.
+  eapply frame_restrict; [exact (frame_trans_gr _ _ _ _ _ _ Hg (inv_heap _ _ I) F1 F2)|].
   intros y c Hy Hny Hc. simpl in Hy. destruct Hy as [<-|Hy]; [|contradiction].
   unfold o in Hc. rewrite (fresh_dead _ _ I) in Hc. discriminate.
 Qed.
@@ -750,49 +796,55 @@ Lemma own_alloc s L : Inv s -> Own s L ->
   Own (alloc_st COpaque s) (st_next s :: L).
 Proof.
   intros I O. destruct (alloc_opaque_ok None s I) as [I1 [F1 [Hc1 [Hr1 _]]]].
-  pose proof (own_frame _ _ _ _ O F1 (fun _ _ H => H)) as [On Oc]. split.
+  pose proof (own_frame _ _ _ _ _ O F1 (fun _ _ H => H)) as [On Oc]. split.
   - constructor; auto. intros Hin. destruct (proj2 O _ Hin) as [Hlive _].
     pose proof (live_lt _ _ _ (inv_heap _ _ I) Hlive). lia.
   - intros y [<-|Hy]; auto.
 Qed.
 
-Lemma frame_alloc_drop s s2 L :
-  Inv s -> Frame (alloc_st COpaque s) s2 (st_next s :: L) -> Frame s s2 L.
+Lemma given_alloc s g : Inv s -> GivenOk s g -> GivenOk (alloc_st COpaque s) g.
+Proof. intros I Hg. destruct (alloc_opaque_ok None s I) as [_ [F1 _]]. exact (given_frame _ _ _ _ Hg F1). Qed.
+
+Lemma frame_alloc_drop g s s2 L :
+  Inv s -> GivenOk s g -> FrameG (dg g) (alloc_st COpaque s) s2 (st_next s :: L) -> FrameG (dg g) s s2 L.
 Proof.
-  intros I F2. destruct (alloc_opaque_ok None s I) as [_ [F1 _]].
-  eapply frame_restrict; [exact (frame_trans _ _ _ _ _ F1 F2)|].
+  intros I Hg F2. destruct (alloc_opaque_ok None s I) as [_ [F1 _]].
+  eapply frame_restrict; [exact (frame_trans_gr _ _ _ _ _ _ Hg (inv_heap _ _ I) F1 F2)|].
   intros y c Hy Hny Hc. simpl in Hy. destruct Hy as [<-|Hy]; [|contradiction].
   rewrite (fresh_dead _ _ I) in Hc. discriminate.
 Qed.
 
 (* ---- ares_search.c ---- *)
-Lemma search_next_step f : Specs f -> forall o k l nd s, Inv s -> Own s (o :: cobjs k) -> nohost k ->
+Lemma search_next_step f : Specs f -> forall o k l nd s, Inv s -> Own s (o :: cobjs k) -> GivenOk s (kbot k) ->
   safe (search_next cf (S f) o k l nd) s
-       (fun r s' => Inv s' /\ Frame s s' (if snd r then o :: cobjs k else [])
-                    /\ (snd r = false -> Own s' (o :: cobjs k))).
+       (fun r s' => Inv s' /\ if snd r then FrameG (dg (kbot k)) s s' (o :: cobjs k)
+                               else Frame s s' [] /\ Own s' (o :: cobjs k) /\ GivenOk s' (kbot k)
+                                    /\ zeqb (fst r) ARES_SUCCESS = false).
 Proof.
-  intros IH o k l nd s I O Hn. simpl.
+  intros IH o k l nd s I O Hg. simpl.
   destruct (own_cons _ _ _ O) as [Hc [Hr [Hni O']]].
   apply safe_bind. eapply safe_touch; [exact (inv_heap _ _ I)|exact Hc|].
   destruct l as [|cur l'].
-  - apply safe_ret. simpl. split; auto. split; [apply frame_refl|auto].
+  - apply safe_ret. simpl. split; auto. split; [apply (frame_refl _ _ I)|auto].
   - apply safe_bind. apply safe_pop. intros e rest Et. destruct e; try apply safe_fail.
     set (s1 := set_tape rest s).
     assert (E1 : core_eq s s1) by apply core_eq_set_tape.
     assert (I1 : Inv s1) by (apply (inv_core _ _ _ E1); auto).
     assert (O1 : Own s1 (o :: cobjs k)) by (apply (own_core _ _ _ E1); auto).
-    destruct (negb (zeqb rc ARES_SUCCESS)).
-    + apply safe_ret. simpl. split; auto. split; [apply ce_frame_refl; exact E1|auto].
+    assert (Hg1 : GivenOk s1 (kbot k)) by (apply (given_core _ _ _ E1); auto).
+    destruct (negb (zeqb rc ARES_SUCCESS)) eqn:Erc.
+    + apply safe_ret. simpl. split; auto. split; [apply (ce_refl_frame _ _ _ I E1)|].
+      split; auto. split; auto. apply negb_true_iff. exact Erc.
     + apply safe_bind.
-      eapply safe_mono; [apply (sp_send_nolock _ IH (KSearch o k cur l' nd) false s1 I1 O1 Hn)|].
+      eapply safe_mono; [apply (sp_send_nolock _ IH (KSearch o k cur l' nd) false None s1 I1 O1 Hg1 Logic.I)|].
       intros st s2 [I2 F2]. apply safe_ret. rewrite fx_search_true. simpl.
-      split; auto. split; [exact (frame_core_l _ _ _ _ E1 F2)|discriminate].
+      split; auto. exact (frame_core_l _ _ _ _ E1 F2).
 Qed.
 
-Lemma search_callback_step f : Specs f -> forall o k cs l nd r s, Inv s -> Own s (o :: cobjs k) -> nohost k ->
-  safe (search_callback cf (S f) o k cs l nd r) s (post s (o :: cobjs k)).
+Lemma search_callback_step f : Specs f -> forall o k cs l nd r s, Inv s -> Own s (o :: cobjs k) -> GivenOk s (kbot k) ->
+  safe (search_callback cf (S f) o k cs l nd r) s (postG (kbot k) s (o :: cobjs k)).
 Proof.
-  intros IH o k cs l nd r s I O Hn. simpl.
+  intros IH o k cs l nd r s I O Hg. simpl.
   destruct (own_cons _ _ _ O) as [Hc [Hr [Hni O']]].
   apply safe_bind. eapply safe_touch; [exact (inv_heap _ _ I)|exact Hc|].
   match goal with |- context [if negb ?b then _ else _] => destruct (negb b) end.
@@ -800,63 +852,64 @@ Proof.
   - destruct l as [|c0 l'].
     + match goal with |- context [if ?b then _ else _] => destruct b end; apply (sp_end_squery _ IH); auto.
     + apply safe_bind. eapply safe_mono; [apply (sp_search_next _ IH); auto|].
-      intros [st skip] s1 [I1 [F1 Hown]]. simpl in F1, Hown.
+      intros [st skip] s1 [I1 F1]. simpl in F1.
       destruct skip; simpl.
       * rewrite andb_false_r. apply safe_ret. split; auto.
-      * destruct (negb (zeqb st ARES_SUCCESS)); simpl.
-        -- eapply safe_mono; [apply (sp_end_squery _ IH); auto|].
-           intros [] s2 [I2 F2]. split; auto.
-           pose proof (frame_trans _ _ _ _ _ F1 F2) as F. exact F.
-        -- apply safe_ret. split; auto. eapply frame_weaken; [exact F1|intros y []].
+      * destruct F1 as [F1 [O1 [Hg1 Est]]]. rewrite Est. simpl.
+        eapply safe_mono; [apply (sp_end_squery _ IH); auto|].
+        intros [] s2 [I2 F2]. split; auto.
+        exact (frame_trans_gr _ _ _ _ _ _ Hg (inv_heap _ _ I) F1 F2).
 Qed.
 
-Lemma search_int_step f : Specs f -> forall k names s, Inv s -> Own s (cobjs k) -> nohost k ->
-  safe (search_int cf (S f) k names) s (postA s (cobjs k)).
+Lemma search_int_step f : Specs f -> forall k names s, Inv s -> Own s (cobjs k) -> GivenOk s (kbot k) ->
+  safe (search_int cf (S f) k names) s (postGA (kbot k) s (cobjs k)).
 Proof.
-  intros IH k names s I O Hn. simpl.
+  intros IH k names s I O Hg. simpl.
   apply safe_bind. apply safe_alloc.
   destruct (alloc_opaque_ok None s I) as [I1 [F1 _]].
-  pose proof (own_alloc s _ I O) as O1.
+  pose proof (own_alloc s _ I O) as O1. pose proof (given_alloc s _ I Hg) as Hg1.
   set (o := st_next s) in *. set (s1 := alloc_st COpaque s) in *.
-  apply safe_bind. eapply safe_mono; [apply (sp_search_next _ IH o k names false s1 I1 O1 Hn)|].
-  intros [st skip] s2 [I2 [F2 Hown]]. simpl in F2, Hown.
-  destruct (zeqb st ARES_SUCCESS).
-  - apply safe_ret. split; auto. apply (frame_alloc_drop s s2 (cobjs k) I).
-    destruct skip; auto. eapply frame_weaken; [exact F2|intros y []].
-  - destruct skip.
-    + apply safe_bind. apply safe_ret. apply safe_ret. split; auto. apply (frame_alloc_drop s s2 (cobjs k) I). exact F2.
-    + destruct (own_cons _ _ _ (Hown eq_refl)) as [Hc2 [Hr2 [Hni2 O2]]].
-      apply safe_bind. apply safe_bind. eapply safe_touch; [exact (inv_heap _ _ I2)|exact Hc2|].
-      apply safe_bind. eapply safe_free; [exact (inv_heap _ _ I2)|exact Hc2|].
-      destruct (free_unrooted_ok None s2 o COpaque I2 Hc2 ltac:(discriminate) Hr2) as [I3 [F3 _]].
-      assert (O3 : Own (free_st o s2) (cobjs k)).
-      { apply (own_frame _ _ _ _ O2 F3). intros y Hy [<-|[]]. contradiction. }
-      eapply safe_mono; [apply (sp_invoke _ IH); auto|].
-      intros [] s4 [I4 F4]. apply safe_ret. split; auto.
-      apply (frame_alloc_drop s s4 (cobjs k) I).
-      eapply frame_weaken; [exact (frame_trans _ _ _ _ _ F2 (frame_trans _ _ _ _ _ F3 F4))|].
-      intros y Hy. simpl in Hy. destruct Hy as [<-|Hy]; [left; auto|right; auto].
+  apply safe_bind. eapply safe_mono; [apply (sp_search_next _ IH o k names false s1 I1 O1 Hg1)|].
+  intros [st skip] s2 [I2 F2]. simpl in F2.
+  destruct skip.
+  - (* handed over to the first query *)
+    destruct (zeqb st ARES_SUCCESS).
+    + apply safe_ret. split; auto. apply (frame_alloc_drop _ s s2 (cobjs k) I Hg). exact F2.
+    + apply safe_bind. apply safe_ret. apply safe_ret. split; auto. apply (frame_alloc_drop _ s s2 (cobjs k) I Hg). exact F2.
+  - destruct F2 as [F2 [O2 [Hg2 Est]]]. rewrite Est.
+    destruct (own_cons _ _ _ O2) as [Hc2 [Hr2 [Hni2 O2']]].
+    apply safe_bind. apply safe_bind. eapply safe_touch; [exact (inv_heap _ _ I2)|exact Hc2|].
+    apply safe_bind. eapply safe_free; [exact (inv_heap _ _ I2)|exact Hc2|].
+    destruct (free_unrooted_ok None s2 o COpaque I2 Hc2 ltac:(discriminate) ltac:(discriminate) Hr2) as [I3 [F3 _]].
+    assert (O3 : Own (free_st o s2) (cobjs k)).
+    { apply (own_frame _ _ _ _ _ O2' F3). intros y Hy [<-|[]]. contradiction. }
+    assert (Hg3 : GivenOk (free_st o s2) (kbot k)) by exact (given_frame _ _ _ _ Hg2 F3).
+    eapply safe_mono; [apply (sp_invoke _ IH); auto|].
+    intros [] s4 [I4 F4]. apply safe_ret. split; auto.
+    apply (frame_alloc_drop _ s s4 (cobjs k) I Hg).
+    eapply frame_weaken; [exact (frame_trans_gr _ _ _ _ _ _ Hg1 (inv_heap _ _ I1) (frame_trans _ _ _ _ _ F2 F3) F4)|].
+    intros y Hy. simpl in Hy. destruct Hy as [<-|Hy]; [left; auto|right; auto].
 Qed.
 
 (* ---- ares_gethostbyaddr.c ---- *)
-Lemma addr_next_lookup_step f : Specs f -> forall o k l s, Inv s -> Own s (o :: cobjs k) -> nohost k ->
-  safe (addr_next_lookup cf (S f) o k l) s (post s (o :: cobjs k)).
+Lemma addr_next_lookup_step f : Specs f -> forall o k l s, Inv s -> Own s (o :: cobjs k) -> GivenOk s (kbot k) ->
+  safe (addr_next_lookup cf (S f) o k l) s (postG (kbot k) s (o :: cobjs k)).
 Proof.
-  intros IH o k l s I O Hn. simpl.
+  intros IH o k l s I O Hg. simpl.
   destruct (own_cons _ _ _ O) as [Hc [Hr [Hni O']]].
   apply safe_bind. eapply safe_touch; [exact (inv_heap _ _ I)|exact Hc|].
   destruct l as [|[|] l'].
   - apply (sp_end_aquery _ IH); auto.
   - apply safe_bind.
-    eapply safe_mono; [apply (sp_query_nolock _ IH (KAddr o k l') s I O Hn)|].
+    eapply safe_mono; [apply (sp_query_nolock _ IH (KAddr o k l') None s I O Hg Logic.I)|].
     intros z s1 [I1 F1]. apply safe_ret. split; auto.
   - apply (sp_addr_next_lookup _ IH); auto.
 Qed.
 
-Lemma addr_callback_step f : Specs f -> forall o k l r s, Inv s -> Own s (o :: cobjs k) -> nohost k ->
-  safe (addr_callback cf (S f) o k l r) s (post s (o :: cobjs k)).
+Lemma addr_callback_step f : Specs f -> forall o k l r s, Inv s -> Own s (o :: cobjs k) -> GivenOk s (kbot k) ->
+  safe (addr_callback cf (S f) o k l r) s (postG (kbot k) s (o :: cobjs k)).
 Proof.
-  intros IH o k l r s I O Hn. simpl.
+  intros IH o k l r s I O Hg. simpl.
   destruct (own_cons _ _ _ O) as [Hc [Hr [Hni O']]].
   apply safe_bind. eapply safe_touch; [exact (inv_heap _ _ I)|exact Hc|].
   destruct (zeqb (r_status r) ARES_SUCCESS).
@@ -864,17 +917,249 @@ Proof.
     set (s1 := set_tape rest s).
     assert (E1 : core_eq s s1) by apply core_eq_set_tape.
     eapply safe_mono; [apply (sp_end_aquery _ IH o k (res rc) s1);
-                       [apply (inv_core _ _ _ E1); auto|apply (own_core _ _ _ E1); auto|auto]|].
+                       [apply (inv_core _ _ _ E1); auto|apply (own_core _ _ _ E1); auto|apply (given_core _ _ _ E1); auto]|].
     intros [] s2 [I2 F2]. split; auto. exact (frame_core_l _ _ _ _ E1 F2).
   - destruct (zeqb (r_status r) ARES_EDESTRUCTION || zeqb (r_status r) ARES_ECANCELLED).
     + apply (sp_end_aquery _ IH); auto.
     + apply (sp_addr_next_lookup _ IH); auto.
 Qed.
 
-(* ---- entry points ---- *)
-Lemma api_step f : Specs f -> forall c s, Inv s -> nohost_call c -> safe (api cf (S f) c) s (post s []).
+(* ---- ares_getaddrinfo.c ---- *)
+Lemma hown_opaque s o h : HOwn s o h -> ~ In o (cobjs (h_cb h)).
+Proof. intros [Hc [_ [_ [_ O]]]] Hin. destruct (O _ Hin) as [Hc' _]. congruence. Qed.
+
+Lemma end_hquery_step f : Specs f -> forall o st s h, Inv s -> HOwn s o h ->
+  safe (end_hquery cf (S f) o st) s (postH s o h).
 Proof.
-  intros IH c s I Hc.
+  intros IH o st s h I HO. pose proof (hown_opaque _ _ _ HO) as Hni. destruct HO as [Hc [Hz [Hnh O]]]. simpl.
+  apply safe_bind. eapply safe_get_host; [exact (inv_heap _ _ I)|exact Hc|].
+  pose proof (nohost_kbot _ Hnh) as Ek.
+  apply safe_bind. eapply safe_mono; [apply (sp_invoke _ IH (h_cb h) (res st) s I O); rewrite Ek; exact Logic.I|].
+  intros [] s1 [I1 F1]. rewrite Ek in F1.
+  destruct (fr_cell _ _ _ _ F1 _ _ Hc (host_unrooted _ _ _ _ I Hc) Hni Hz) as [Hc1 Hr1].
+  eapply safe_free; [exact (inv_heap _ _ I1)|exact Hc1|].
+  destruct (free_host_ok None s1 o h I1 Hc1 Hz) as [I2 [F2 _]].
+  split; [exact I2|]. split.
+  - eapply frame_weaken; [exact (frame_trans _ _ _ _ _ F1 F2)|].
+    intros y Hy. apply in_app_or in Hy. simpl. destruct Hy as [Hy|[Hy|[]]]; auto.
+  - intros h2 Hc2. rewrite cell_free, Nat.eqb_refl in Hc2. discriminate.
+Qed.
+
+Lemma hown_store s o h h' :
+  Inv s -> HOwn s o h -> h_cb h' = h_cb h -> h_remaining h' = 0 ->
+  let s' := store_st o (CHost h') s in
+  Inv s' /\ Frame s s' [o] /\ HOwn s' o h'.
+Proof.
+  intros I HO Ecb Hz' s'. pose proof (hown_opaque _ _ _ HO) as Hni. destruct HO as [Hc [Hz [Hnh O]]].
+  destruct (store_host_excl_ok None s o h h' I Hc Hz Hz') as [I1 [F1 [Hc1 [Hsame [_ Hrt]]]]].
+  split; [exact I1|]. split; [exact F1|]. split; [exact Hc1|]. split; [exact Hz'|]. rewrite Ecb. split; [exact Hnh|].
+  apply (own_same s); auto. intros y Hy. apply Hsame. intros ->. contradiction.
+Qed.
+
+Lemma host_next_lookup_step f : Specs f -> forall o st s h, Inv s -> HOwn s o h ->
+  safe (host_next_lookup cf (S f) o st) s (postH s o h).
+Proof.
+  intros IH o st s h I HO. pose proof HO as [Hc [Hz [Hnh O]]]. simpl.
+  apply safe_bind. eapply safe_get_host; [exact (inv_heap _ _ I)|exact Hc|].
+  (* drop the first lookup and go on *)
+  assert (G : forall rest, safe (store o (CHost (h_set_lookups rest h));; host_next_lookup cf f o st) s (postH s o h)).
+  { intros rest. apply safe_bind. eapply safe_store; [exact (inv_heap _ _ I)|exact Hc|].
+    destruct (hown_store s o h (h_set_lookups rest h) I HO eq_refl Hz) as [I1 [F1 HO1]].
+    eapply safe_mono; [apply (sp_host_next_lookup _ IH o st _ _ I1 HO1)|].
+    intros [] s2 [I2 [F2 St2]]. split; auto. split; [|exact St2].
+    eapply frame_weaken; [exact (frame_trans _ _ _ _ _ F1 F2)|].
+    intros y Hy. simpl in Hy. destruct Hy as [<-|Hy]; [left; auto|exact Hy]. }
+  destruct (h_lookups h) as [|[|] rest].
+  - apply (sp_end_hquery _ IH); auto.
+  - destruct (negb (h_localhost h) && match h_names h with [] => false | _ :: _ => true end).
+    + apply (sp_host_next_dns_lookup _ IH); auto.
+    + apply G.
+  - destruct (h_localhost h).
+    + apply (sp_end_hquery _ IH); auto.
+    + apply G.
+Qed.
+
+(* next_dns_lookup for AF_UNSPEC: after the first of the two queries the host_query still waits for the second *)
+Lemma dns_second_given s1 s2 o h1 :
+  shared_at s1 o = Some h1 -> nrefs s1 o = 0 -> h_remaining h1 = 2 -> FrameG (dg (Some o)) s1 s2 [] -> GivenOk s2 (Some o).
+Proof.
+  intros Hs1 Hz1 Er1 F2.
+  destruct (hf_host _ _ _ (fr_hosts _ _ _ _ F2) _ _ Hs1) as [A1 A2].
+  { simpl. rewrite Nat.eqb_refl. lia. }
+  unfold dg in A1, A2. rewrite Nat.eqb_refl, Hz1, Er1 in A1, A2.
+  destruct (A1 ltac:(lia)) as [h2 Hc2]. destruct (A2 _ Hc2) as [Hp2 [Ecb2 Er2]].
+  exists h2. split; [apply shared_intro; auto|lia].
+Qed.
+
+Lemma host_next_dns_lookup_step f : Specs f -> forall o s h, Inv s -> HOwn s o h ->
+  safe (host_next_dns_lookup cf (S f) o) s (postH s o h).
+Proof.
+  intros IH o s h I HO. pose proof HO as [Hc [Hz [Hnh O]]]. simpl.
+  apply safe_bind. eapply safe_get_host; [exact (inv_heap _ _ I)|exact Hc|].
+  set (n := if Nat.eqb (h_family h) 0 then 2 else 1).
+  set (h1 := h_set_remaining (h_remaining h + n) (h_set_names (tl (h_names h)) (hd false (h_names h)) h)).
+  assert (Er1 : h_remaining h1 = n) by (unfold h1; simpl; rewrite Hz; reflexivity).
+  assert (Ecb1 : h_cb h1 = h_cb h) by reflexivity.
+  assert (Hn : n = 1 \/ n = 2) by (unfold n; destruct (Nat.eqb (h_family h) 0); auto).
+  apply safe_bind. eapply safe_store; [exact (inv_heap _ _ I)|exact Hc|].
+  destruct (store_host_share_ok None s o h h1 I Hc Hz O Hnh eq_refl ltac:(lia)) as [I1 [F1 [Hs1 [Hz1 _]]]].
+  set (s1 := store_st o (CHost h1) s) in *.
+  assert (Hs0 : shared_at s o = None) by (unfold shared_at; rewrite Hc, Hz; reflexivity).
+  assert (Hg1 : GivenOk s1 (Some o)) by (exists h1; split; auto; lia).
+  apply safe_bind.
+  eapply safe_mono; [apply (sp_query_nolock _ IH (KHost o) (Some (o, Nat.eqb (h_family h) 6)) s1 I1 (own_nil _) Hg1 eq_refl)|].
+  intros z s2 [I2 F2]. simpl in F2.
+  destruct (hf_host _ _ _ (fr_hosts _ _ _ _ F2) _ _ Hs1) as [A1 A2].
+  { simpl. rewrite Nat.eqb_refl. lia. }
+  unfold dg in A1, A2. rewrite Nat.eqb_refl, Hz1, Er1 in A1, A2.
+  assert (Hlt : forall o', 0 < dg (Some o) o' -> o' < st_next s).
+  { intros o' H. simpl in H. destruct (Nat.eqb o' o) eqn:E; [|lia]. apply Nat.eqb_eq in E. subst.
+    exact (live_lt _ _ _ (inv_heap _ _ I) Hc). }
+  fold n. destruct (Nat.eqb n 2) eqn:En.
+  - apply Nat.eqb_eq in En.
+    destruct (A1 ltac:(lia)) as [h2 Hc2]. destruct (A2 _ Hc2) as [Hp2 [Ecb2 Er2]].
+    assert (Hs2 : shared_at s2 o = Some h2) by (apply shared_intro; auto).
+    assert (Hg2 : GivenOk s2 (Some o)) by (exists h2; split; auto; lia).
+    apply safe_bind.
+    eapply safe_mono; [apply (sp_query_nolock _ IH (KHost o) (Some (o, true)) s2 I2 (own_nil _) Hg2 eq_refl)|].
+    intros z3 s3 [I3 F3]. simpl in F3. apply safe_ret.
+    destruct (hf_host _ _ _ (fr_hosts _ _ _ _ F3) _ _ Hs2) as [_ B2].
+    { simpl. rewrite Nat.eqb_refl. lia. }
+    unfold dg in B2. rewrite Nat.eqb_refl in B2.
+    split; [exact I3|]. split.
+    + pose proof (frame_trans_g _ _ (fun o' => dg (Some o) o' + dg (Some o) o') _ _ _ _ _ (fun _ => eq_refl)
+                    ltac:(intros o' H; apply (Nat.lt_le_trans _ (st_next s)); [apply Hlt; exact H|exact (fr_next _ _ _ _ F1)]) F2 F3) as F23.
+      pose proof (frame_trans_g (dg None) _ (fun o' => dg (Some o) o' + dg (Some o) o') _ _ _ _ _ (gsum_r _)
+                    ltac:(intros o' H; apply Hlt; simpl in *; destruct (Nat.eqb o' o); simpl in *; lia) F1 F23) as F.
+      rewrite !app_nil_r in F. apply (frameg_zero _ _ _ _ F).
+      intros o' h' Hs'. simpl. destruct (Nat.eqb o' o) eqn:E; auto. apply Nat.eqb_eq in E. subst. congruence.
+    + intros h3 Hc3. destruct (B2 _ Hc3) as [Hp3 [Ecb3 Er3]]. split; auto. split; [congruence|lia].
+  - apply safe_ret. apply Nat.eqb_neq in En. assert (n = 1) by lia.
+    split; [exact I2|]. split.
+    + pose proof (frame_trans_g _ _ (dg (Some o)) _ _ _ _ _ (gsum_r _) Hlt F1 F2) as F.
+      rewrite app_nil_r in F. apply (frameg_zero _ _ _ _ F).
+      intros o' h' Hs'. simpl. destruct (Nat.eqb o' o) eqn:E; auto. apply Nat.eqb_eq in E. subst. congruence.
+    + intros h2 Hc2. destruct (A2 _ Hc2) as [Hp2 [Ecb2 Er2]]. split; auto. split; [congruence|lia].
+Qed.
+
+Lemma hown_core s s' o h : core_eq s s' -> HOwn s o h -> HOwn s' o h.
+Proof.
+  intros E [Hc [Hz [Hnh O]]]. split; [rewrite (ce_cell _ _ _ E); exact Hc|]. split; auto. split; auto.
+  apply (ce_own _ _ _ E). exact O.
+Qed.
+
+Lemma host_callback_step f : Specs f -> forall o r s, Inv s -> GivenOk s (Some o) ->
+  safe (host_callback cf (S f) o r) s (postG (Some o) s []).
+Proof.
+  intros IH o r s I [h [Hs Hlt]]. destruct (shared_host _ _ _ Hs) as [Hc Hp]. simpl.
+  apply safe_bind. eapply safe_get_host; [exact (inv_heap _ _ I)|exact Hc|].
+  apply safe_bind. eapply safe_store; [exact (inv_heap _ _ I)|exact Hc|].
+  set (h1 := h_set_remaining (Init.Nat.pred (h_remaining h)) h).
+  set (s1 := store_st o (CHost h1) s).
+  assert (Ecb1 : h_cb h1 = h_cb h) by reflexivity.
+  assert (Er1 : h_remaining h1 = Init.Nat.pred (h_remaining h)) by reflexivity.
+  (* the answer is parsed: only the tape moves *)
+  assert (TPB : forall (Q : Z * bool * bool -> state -> Prop), (forall v s2, core_eq s1 s2 -> Q v s2) ->
+            safe (if zeqb (r_status r) ARES_SUCCESS
+                  then let! e := pop in
+                       match e with
+                       | TP rc nodes v4 v6 =>
+                           if zeqb rc ARES_SUCCESS && negb (h_family h =? 0)
+                           then ret (if if h_family h =? 4 then v4 else v6 then ARES_SUCCESS else ARES_ENODATA,
+                                     if h_family h =? 4 then v4 else v6, if h_family h =? 4 then v4 else false)
+                           else ret (rc, nodes, v4)
+                       | _ => fail EDESYNC end
+                  else ret (ARES_SUCCESS, h_nodes h, h_v4 h)) s1 Q).
+  { intros Q HQ. destruct (zeqb (r_status r) ARES_SUCCESS).
+    - apply safe_bind. apply safe_pop. intros e rest Et. destruct e; try apply safe_fail.
+      destruct (zeqb rc ARES_SUCCESS && negb (h_family h =? 0)); apply safe_ret; apply HQ; apply core_eq_set_tape.
+    - apply safe_ret. apply HQ. apply core_eq_refl. }
+  apply safe_bind. apply TPB. intros [[ais nodes] v4] s2 E2.
+  destruct (Init.Nat.pred (h_remaining h) =? 0) eqn:Erem.
+  - (* the last awaited answer: the host_query is ours *)
+    apply Nat.eqb_eq in Erem.
+    assert (Hr1 : h_remaining h = 1) by lia.
+    assert (Hz0 : nrefs s o = 0) by lia.
+    assert (Hz1 : h_remaining h1 = 0) by (rewrite Er1; exact Erem).
+    destruct (store_host_unshare_ok None s o h h1 I Hs Hz0 Ecb1 Hz1) as [I1 [Hc1 [O1 [Hnh _]]]]. fold s1 in I1, Hc1, O1.
+    assert (HO1 : HOwn s1 o h1) by (split; [exact Hc1|split; [exact Hz1|split; [rewrite Ecb1; exact Hnh|rewrite Ecb1; exact O1]]]).
+    assert (I2 : Inv s2) by (apply (ce_inv _ _ _ E2); auto).
+    pose proof (hown_core _ _ _ _ E2 HO1) as HO2. pose proof HO2 as [Hc2 _].
+    apply safe_bind. eapply safe_get_host; [exact (inv_heap _ _ I2)|exact Hc2|].
+    apply safe_bind. eapply safe_store; [exact (inv_heap _ _ I2)|exact Hc2|].
+    destruct (hown_store s2 o h1 (h_set_ai nodes v4 h1) I2 HO2 eq_refl Hz1) as [I3 [F3 HO3]].
+    set (h3 := h_set_ai nodes v4 h1) in *. set (s3 := store_st o (CHost h3) s2) in *.
+    assert (Ecb3 : h_cb h3 = h_cb h) by reflexivity.
+    simpl negb. rewrite andb_false_r. apply safe_bind. apply safe_ret.
+    (* whatever comes next ends with the host_query released or waiting again *)
+    assert (Fin : forall sA hA sB, Frame s3 sA [o] -> h_cb hA = h_cb h ->
+              Inv sB /\ Frame sA sB (o :: cobjs (h_cb hA)) /\ settled sB o (h_cb hA) ->
+              Inv sB /\ FrameG (dg (Some o)) s sB []).
+    { intros sA hA sB FA EcbA [IB [FB StB]]. split; [exact IB|]. rewrite EcbA in FB, StB.
+      apply (frame_unshare_then None s o h h1 sB _ I Hs Hz0 Hr1 Ecb1 Hz1
+               (frame_core_l _ _ _ _ E2 (frame_trans _ _ _ _ _ F3 (frame_trans _ _ _ _ _ FA FB)))); auto.
+      intros y Hy. simpl in Hy. destruct Hy as [<-|[<-|[<-|Hy]]]; simpl; auto. }
+    assert (FinE : forall stx, safe (end_hquery cf f o stx) s3 (postG (Some o) s [])).
+    { intros stx. eapply safe_mono; [apply (sp_end_hquery _ IH o stx s3 h3 I3 HO3)|].
+      intros [] sB HB. apply (Fin s3 h3 sB); auto. apply (frame_weaken _ _ _ [] [o]); [apply (frame_refl _ _ I3)|intros y []]. }
+    assert (FinN : forall stx sA hA, Inv sA -> HOwn sA o hA -> Frame s3 sA [o] -> h_cb hA = h_cb h ->
+              safe (host_next_lookup cf f o stx) sA (postG (Some o) s [])).
+    { intros stx sA hA IA HOA FA EcbA. eapply safe_mono; [apply (sp_host_next_lookup _ IH o stx sA hA IA HOA)|].
+      intros [] sB HB. apply (Fin sA hA sB); auto. }
+    pose proof HO3 as [Hc3 [Hz3 _]].
+    destruct (zeqb (r_status r) ARES_EDESTRUCTION || zeqb (r_status r) ARES_ECANCELLED); [apply FinE|].
+    destruct (negb (zeqb ais ARES_SUCCESS) && negb (zeqb ais ARES_ENODATA)).
+    { destruct (zeqb ais ARES_EBADRESP && nodes); apply FinE. }
+    destruct nodes; [apply FinE|].
+    destruct (zeqb (r_status r) ARES_ENOTFOUND || zeqb (r_status r) ARES_ENODATA || zeqb ais ARES_ENODATA).
+    { apply safe_bind. eapply safe_get_host; [exact (inv_heap _ _ I3)|exact Hc3|].
+      apply safe_bind. eapply safe_store; [exact (inv_heap _ _ I3)|exact Hc3|].
+      match goal with |- context [store_st o (CHost ?hx) s3] =>
+        destruct (hown_store s3 o h3 hx I3 HO3 eq_refl Hz3) as [I4 [F4 HO4]] end.
+      eapply FinN; eauto. }
+    match goal with |- safe (if ?b then _ else _) _ _ => destruct b end.
+    { apply safe_bind. eapply safe_get_host; [exact (inv_heap _ _ I3)|exact Hc3|].
+      eapply FinN; eauto. apply (frame_weaken _ _ _ [] [o]); [apply (frame_refl _ _ I3)|intros y []]. }
+    apply FinE.
+  - (* other answers are still awaited *)
+    apply Nat.eqb_neq in Erem.
+    assert (Hp1 : 0 < h_remaining h1) by (rewrite Er1; lia).
+    destruct (store_host_shared_ok None s o h h1 (dg (Some o)) I Hs Ecb1 Hp1) as [I1 [F1 [Hs1 _]]].
+    { rewrite Er1. simpl. rewrite Nat.eqb_refl. lia. }
+    { intros o' Hne. simpl. apply Nat.eqb_neq in Hne. rewrite Hne. reflexivity. }
+    { simpl. rewrite Nat.eqb_refl. lia. }
+    fold s1 in I1, F1, Hs1.
+    assert (I2 : Inv s2) by (apply (ce_inv _ _ _ E2); auto).
+    assert (Hs2 : shared_at s2 o = Some h1) by (rewrite (ce_shared _ _ _ E2); exact Hs1).
+    destruct (shared_host _ _ _ Hs2) as [Hc2 _].
+    apply safe_bind. eapply safe_get_host; [exact (inv_heap _ _ I2)|exact Hc2|].
+    apply safe_bind. eapply safe_store; [exact (inv_heap _ _ I2)|exact Hc2|].
+    destruct (store_host_shared_ok None s2 o h1 (h_set_ai nodes v4 h1) (dg None) I2 Hs2 eq_refl Hp1) as [I3 [F3 _]].
+    { simpl. lia. } { intros; reflexivity. }
+    { simpl. pose proof (hi_cnt _ (inv_hosts _ _ I2) _ _ Hs2). lia. }
+    set (s3 := store_st o (CHost (h_set_ai nodes v4 h1)) s2) in *.
+    assert (F13 : FrameG (dg (Some o)) s s3 []).
+    { exact (frame_trans_gl _ _ _ _ _ _ F1 (frame_core_l _ _ _ _ E2 F3)). }
+    simpl negb.
+    assert (G : forall s4, Inv s4 -> Frame s3 s4 [] -> safe (ret tt) s4 (postG (Some o) s [])).
+    { intros s4 I4 F4. apply safe_ret. split; auto. exact (frame_trans_gl _ _ _ _ _ _ F13 F4). }
+    apply safe_bind.
+    + match goal with |- context [if ?b then _ else ret tt] => destruct b end.
+      * apply safe_bind. apply safe_get.
+        match goal with |- context [lookup ?t (st_byqid s3)] => destruct (lookup t (st_byqid s3)) as [qo|] eqn:Lk end.
+        -- destruct (inv_byqid _ _ I3 _ _ Lk) as [Hl _]. destruct (inv_query _ _ I3 _ Hl) as [q Hq].
+           apply safe_bind. eapply safe_get_query; [exact (inv_heap _ _ I3)|exact Hq|].
+           eapply safe_store; [exact (inv_heap _ _ I3)|exact Hq|].
+           destruct (store_query_misc_ok None s3 qo q (set_q_noretry true q) I3 Hq eq_refl eq_refl eq_refl) as [I4 [F4 _]].
+           apply G; auto. eapply frame_shrink; [exact F4|]. intros y c [<-|[]] _. left. exact Hl.
+        -- apply safe_ret. apply G; auto. apply (frame_refl _ _ I3).
+      * apply safe_ret. apply G; auto. apply (frame_refl _ _ I3).
+Qed.
+
+(* ---- entry points ---- *)
+Lemma api_step f : Specs f -> forall c s, Inv s -> safe (api cf (S f) c) s (post s []).
+Proof.
+  intros IH c s I.
   (* after the EvReq event *)
   assert (Em : forall t (m : M unit),
             (forall s1, core_eq s s1 -> st_scripts s1 = st_scripts s -> safe m s1 (post s1 [])) ->
@@ -884,13 +1169,13 @@ Proof.
     assert (E1 : core_eq s s1) by apply core_eq_set_trace.
     eapply safe_mono; [apply Hm; [exact E1|reflexivity]|].
     intros [] s2 [I2 F2]. split; auto. exact (frame_core_l _ _ _ _ E1 F2). }
-  destruct c; simpl; try (destruct Hc; fail).
+  destruct c; simpl.
   - (* ASync *)
     apply Em. intros s1 E1 Es1.
     apply (sp_invoke _ IH (KUser t) (res st) s1); [apply (inv_core _ _ _ E1); auto|apply own_nil|exact Logic.I].
   - (* ASend *)
     apply Em. intros s1 E1 Es1. apply safe_bind.
-    eapply safe_mono; [apply (sp_send_nolock _ IH (KUser t) false s1); [apply (inv_core _ _ _ E1); auto|apply own_nil|exact Logic.I]|].
+    eapply safe_mono; [apply (sp_send_nolock _ IH (KUser t) false None s1); [apply (inv_core _ _ _ E1); auto|apply own_nil|exact Logic.I|exact Logic.I]|].
     intros z s2 [I2 F2]. apply safe_ret. split; auto.
   - (* ASendRaw *)
     apply Em. intros s1 E1 Es1.
@@ -898,11 +1183,11 @@ Proof.
     apply safe_bind. apply safe_alloc.
     destruct (alloc_opaque_ok None s1 I1) as [I2 _].
     apply safe_bind.
-    eapply safe_mono; [apply (sp_send_nolock _ IH (KWrap WConv (st_next s1) (KUser t)) false _ I2 (own_alloc s1 [] I1 (own_nil _)) Logic.I)|].
-    intros z s3 [I3 F3]. apply safe_ret. split; auto. exact (frame_alloc_drop s1 s3 [] I1 F3).
+    eapply safe_mono; [apply (sp_send_nolock _ IH (KWrap WConv (st_next s1) (KUser t)) false None _ I2 (own_alloc s1 [] I1 (own_nil _)) Logic.I Logic.I)|].
+    intros z s3 [I3 F3]. apply safe_ret. split; auto. exact (frame_alloc_drop None s1 s3 [] I1 Logic.I F3).
   - (* AQuery *)
     apply Em. intros s1 E1 Es1. apply safe_bind.
-    eapply safe_mono; [apply (sp_query_nolock _ IH (KUser t) s1); [apply (inv_core _ _ _ E1); auto|apply own_nil|exact Logic.I]|].
+    eapply safe_mono; [apply (sp_query_nolock _ IH (KUser t) None s1); [apply (inv_core _ _ _ E1); auto|apply own_nil|exact Logic.I|exact Logic.I]|].
     intros z s2 [I2 F2]. apply safe_ret. split; auto.
   - (* AOQuery *)
     apply Em. intros s1 E1 Es1.
@@ -912,10 +1197,10 @@ Proof.
     pose proof (own_alloc s1 [] I1 (own_nil _)) as O2.
     destruct (zeqb create_rc ARES_SUCCESS).
     + apply safe_bind.
-      eapply safe_mono; [apply (sp_query_nolock _ IH (KWrap WConv (st_next s1) (KUser t)) _ I2 O2 Logic.I)|].
-      intros z s3 [I3 F3]. apply safe_ret. split; auto. exact (frame_alloc_drop s1 s3 [] I1 F3).
+      eapply safe_mono; [apply (sp_query_nolock _ IH (KWrap WConv (st_next s1) (KUser t)) None _ I2 O2 Logic.I Logic.I)|].
+      intros z s3 [I3 F3]. apply safe_ret. split; auto. exact (frame_alloc_drop None s1 s3 [] I1 Logic.I F3).
     + eapply safe_mono; [apply (sp_invoke _ IH (KWrap WConv (st_next s1) (KUser t)) (res create_rc) _ I2 O2 Logic.I)|].
-      intros [] s3 [I3 F3]. split; auto. exact (frame_alloc_drop s1 s3 [] I1 F3).
+      intros [] s3 [I3 F3]. split; auto. exact (frame_alloc_drop None s1 s3 [] I1 Logic.I F3).
   - (* ASearch *)
     apply Em. intros s1 E1 Es1. apply safe_bind.
     eapply safe_mono; [apply (sp_search_int _ IH (KUser t) names s1); [apply (inv_core _ _ _ E1); auto|apply own_nil|exact Logic.I]|].
@@ -927,14 +1212,14 @@ Proof.
     destruct (alloc_opaque_ok None s1 I1) as [I2 _].
     apply safe_bind.
     eapply safe_mono; [apply (sp_search_int _ IH (KWrap WConv (st_next s1) (KUser t)) names _ I2 (own_alloc s1 [] I1 (own_nil _)) Logic.I)|].
-    intros z s3 [I3 F3]. apply safe_ret. split; auto. exact (frame_alloc_drop s1 s3 [] I1 F3).
+    intros z s3 [I3 F3]. apply safe_ret. split; auto. exact (frame_alloc_drop None s1 s3 [] I1 Logic.I F3).
   - (* AGhba *)
     apply Em. intros s1 E1 Es1.
     assert (I1 : Inv s1) by (apply (inv_core _ _ _ E1); auto).
     apply safe_bind. apply safe_alloc.
     destruct (alloc_opaque_ok None s1 I1) as [I2 _].
     eapply safe_mono; [apply (sp_addr_next_lookup _ IH (st_next s1) (KUser t) lookups _ I2 (own_alloc s1 [] I1 (own_nil _)) Logic.I)|].
-    intros [] s3 [I3 F3]. split; auto. exact (frame_alloc_drop s1 s3 [] I1 F3).
+    intros [] s3 [I3 F3]. split; auto. exact (frame_alloc_drop None s1 s3 [] I1 Logic.I F3).
   - (* AGni *)
     apply Em. intros s1 E1 Es1.
     assert (I1 : Inv s1) by (apply (inv_core _ _ _ E1); auto).
@@ -947,11 +1232,40 @@ Proof.
     pose proof (own_alloc s2 [w] I2 O2) as O3.
     eapply safe_mono; [apply (sp_addr_next_lookup _ IH (st_next s2) (KWrap (WNameinfo namereqd) w (KUser t)) lookups _ I3 O3 Logic.I)|].
     intros [] s4 [I4 F4]. split; auto.
-    apply (frame_alloc_drop s1 s4 [] I1). exact (frame_alloc_drop s2 s4 [w] I2 F4).
+    apply (frame_alloc_drop None s1 s4 [] I1 Logic.I). exact (frame_alloc_drop None s2 s4 [w] I2 Logic.I F4).
+  - (* AGai *)
+    apply Em. intros s1 E1 Es1.
+    assert (I1 : Inv s1) by (apply (inv_core _ _ _ E1); auto).
+    apply safe_bind. apply safe_alloc.
+    set (h0 := mk_host (KUser t) names family lookups localhost).
+    destruct (alloc_host_ok None s1 h0 I1 eq_refl) as [I2 [Hc2 _]].
+    assert (HO2 : HOwn (alloc_st (CHost h0) s1) (st_next s1) h0).
+    { split; [exact Hc2|]. split; [reflexivity|]. split; [exact Logic.I|apply own_nil]. }
+    eapply safe_mono; [apply (sp_host_next_lookup _ IH (st_next s1) ARES_ECONNREFUSED _ h0 I2 HO2)|].
+    intros [] s3 [I3 [F3 St3]]. split; auto.
+    exact (frame_alloc_host_drop None s1 h0 s3 [] I1 eq_refl F3 St3).
+  - (* AGhbn *)
+    apply Em. intros s1 E1 Es1.
+    assert (I1 : Inv s1) by (apply (inv_core _ _ _ E1); auto).
+    apply safe_bind. apply safe_alloc.
+    destruct (alloc_opaque_ok None s1 I1) as [I2 _].
+    pose proof (own_alloc s1 [] I1 (own_nil _)) as O2.
+    set (w := st_next s1) in *. set (s2 := alloc_st COpaque s1) in *.
+    apply safe_bind. apply safe_alloc.
+    set (h0 := mk_host (KWrap WGhbn w (KUser t)) names family lookups localhost).
+    destruct (alloc_host_ok None s2 h0 I2 eq_refl) as [I3 [Hc3 [Hsame3 [_ [Hrt3 _]]]]].
+    assert (HO3 : HOwn (alloc_st (CHost h0) s2) (st_next s2) h0).
+    { split; [exact Hc3|]. split; [reflexivity|]. split; [exact Logic.I|].
+      apply (own_same s2); auto. intros y [<-|[]]. apply Hsame3.
+      destruct (own_cons _ _ _ O2) as [Hcw _]. pose proof (live_lt _ _ _ (inv_heap _ _ I2) Hcw). lia. }
+    eapply safe_mono; [apply (sp_host_next_lookup _ IH (st_next s2) ARES_ECONNREFUSED _ h0 I3 HO3)|].
+    intros [] s4 [I4 [F4 St4]]. split; auto.
+    apply (frame_alloc_drop None s1 s4 [] I1 Logic.I).
+    exact (frame_alloc_host_drop None s2 h0 s4 [w] I2 eq_refl F4 St4).
   - (* ACancel *)
     apply (sp_cancel _ IH); auto.
   - (* ANop *)
-    apply safe_ret. split; auto. apply frame_refl.
+    apply safe_ret. split; auto. apply (frame_refl _ _ I).
 Qed.
 
 (* ---- the induction ---- *)
@@ -982,6 +1296,10 @@ Proof.
   - apply addr_next_lookup_step; auto.
   - apply addr_callback_step; auto.
   - apply end_aquery_step; auto.
+  - apply host_next_lookup_step; auto.
+  - apply host_next_dns_lookup_step; auto.
+  - apply host_callback_step; auto.
+  - apply end_hquery_step; auto.
 Qed.
 
 Theorem all_specs : forall f, Specs f.
@@ -990,24 +1308,65 @@ Proof. induction f; [apply specs_O|apply specs_S; auto]. Qed.
 (* ---------------------------------------------------------------------------------- *)
 (* read_answers / process_answer, ares_process_fds, ares_destroy                        *)
 (* ---------------------------------------------------------------------------------- *)
+(* between two library calls every host_query waits for exactly the queries that point at it *)
+Definition Stable (s : state) : Prop :=
+  forall o h, cell_of s o = Some (CHost h) -> 0 < h_remaining h /\ h_remaining h = nrefs s o.
+Definition Inv2 (s : state) : Prop := Inv s /\ Stable s.
+
+Lemma stable_frame s s' L : Stable s -> Frame s s' L -> Stable s'.
+Proof.
+  intros St F o h' Hc'. pose proof (fr_hosts _ _ _ _ F) as HF.
+  destruct (Nat.le_gt_cases (st_next s) o) as [Hge|Hlt].
+  - exact (hf_new _ _ _ HF _ _ Hge Hc').
+  - destruct (hf_old _ _ _ HF _ _ Hlt Hc') as [h Hc]. destruct (St _ _ Hc) as [Hp Hr].
+    assert (Hs : shared_at s o = Some h) by (apply shared_intro; auto).
+    destruct (hf_host _ _ _ HF _ _ Hs ltac:(simpl; lia)) as [_ A2].
+    destruct (A2 _ Hc') as [B1 [_ B3]]. simpl in B3. split; auto. lia.
+Qed.
+
+Lemma stable_core s s' : core_eq s s' -> Stable s -> Stable s'.
+Proof. intros E St o h. rewrite (ce_cell _ _ _ E), (ce_nrefs _ _ _ E). apply St. Qed.
+
+Lemma stable_sim s s' : linked s' = linked s -> (forall o, cell_sim (cell_of s o) (cell_of s' o)) -> Stable s -> Stable s'.
+Proof.
+  intros El Hs St o h Hc. destruct (sim_views _ _ Hs) as [Hha Hhr].
+  rewrite (nrefs_same s s' El (fun qo _ => Hhr qo)). apply St. apply host_at_some. rewrite <- Hha. apply host_at_some. exact Hc.
+Qed.
+
+Lemma sim_upd_conn s o c c' : cell_of s o = Some (CConn c) ->
+  forall o', cell_sim (cell_of s o') (cell_of (store_st o (CConn c') s) o').
+Proof.
+  intros Hc o'. rewrite cell_store. destruct (Nat.eqb o' o) eqn:E.
+  - apply Nat.eqb_eq in E. subst. rewrite Hc. exact Logic.I.
+  - apply cell_sim_refl.
+Qed.
+
+Lemma sim_free_conn s o c : cell_of s o = Some (CConn c) ->
+  forall o', cell_sim (cell_of s o') (cell_of (free_st o s) o').
+Proof.
+  intros Hc o'. rewrite cell_free. destruct (Nat.eqb o' o) eqn:E.
+  - apply Nat.eqb_eq in E. subst. rewrite Hc. exact Logic.I.
+  - apply cell_sim_refl.
+Qed.
+
 Definition reading (s : state) (co : obj) : Prop := exists c, cell_of s co = Some (CConn c) /\ c_reading c = true.
 
 Lemma reading_frame s s' L co : reading s co -> Frame s s' L -> reading s' co.
 Proof.
-  intros [c [Hc Hr]] F. destruct (fr_reading _ _ _ F _ _ Hc Hr) as [c' [Hc' [Hr' _]]]. exists c'. auto.
+  intros [c [Hc Hr]] F. destruct (fr_reading _ _ _ _ F _ _ Hc Hr) as [c' [Hc' [Hr' _]]]. exists c'. auto.
 Qed.
 
 Lemma reading_core s s' co : reading s co -> core_eq s s' -> reading s' co.
 Proof. intros [c [Hc Hr]] E. exists c. rewrite (ce_cell _ _ _ E). auto. Qed.
 
-Lemma process_answer_ok f co qid a rq s : Inv s -> reading s co ->
-  safe (process_answer cf f co qid a rq) s (fun _ s' => Inv s' /\ reading s' co).
+Lemma process_answer_ok f co qid a rq s : Inv2 s -> reading s co ->
+  safe (process_answer cf f co qid a rq) s (fun _ s' => Inv2 s' /\ reading s' co).
 Proof.
-  intros I R. pose proof (all_specs f) as IH. unfold process_answer.
+  intros [I St] R. pose proof (all_specs f) as IH. unfold process_answer.
   apply safe_bind. apply safe_get.
   destruct (lookup qid (st_byqid s)) as [qo|] eqn:Lk; [|apply safe_fail].
   destruct (inv_byqid _ _ I _ _ Lk) as [Hl _].
-  destruct (inv_query _ _ I _ Hl) as [q [Hq _]].
+  destruct (inv_query _ _ I _ Hl) as [q Hq].
   apply safe_bind. eapply safe_get_query; [exact (inv_heap _ _ I)|exact Hq|].
   destruct R as [c [Hc Hrd]].
   apply safe_bind. eapply safe_get_conn; [exact (inv_heap _ _ I)|exact Hc|].
@@ -1015,7 +1374,7 @@ Proof.
   destruct (find_tmr (st_tape s)) as [[vrc requeued]|]; [|apply safe_fail].
   destruct (requeued && zeqb vrc ARES_SUCCESS) eqn:Erq; [apply safe_fail|].
   (* after ares_cookie_validate *)
-  assert (G : forall rq1 s1, Inv s1 -> reading s1 co -> (requeued = false -> In qo (linked s1)) ->
+  assert (G : forall rq1 s1, Inv s1 -> Stable s1 -> reading s1 co -> (requeued = false -> In qo (linked s1)) ->
             safe (let! e := pop in
                   match e with
                   | TMR _ _ =>
@@ -1038,15 +1397,16 @@ Proof.
                                  {| r_status := ARES_SUCCESS; r_rec := Some (a_rcode a, a_ancount a, qid) |};;
                                ret rq1
                            end
-                  | _ => fail EDESYNC end) s1 (fun _ s' => Inv s' /\ reading s' co)).
-  { intros rq1 s1 I1 R1 Hl1.
+                  | _ => fail EDESYNC end) s1 (fun _ s' => Inv2 s' /\ reading s' co)).
+  { intros rq1 s1 I1 St1 R1 Hl1.
     apply safe_bind. apply safe_pop. intros e rest Et. destruct e; try apply safe_fail.
     set (s2 := set_tape rest s1).
     assert (E2 : core_eq s1 s2) by apply core_eq_set_tape.
     assert (I2 : Inv s2) by (apply (inv_core _ _ _ E2); auto).
+    assert (St2 : Stable s2) by (apply (stable_core _ _ E2); auto).
     assert (R2 : reading s2 co) by (apply (reading_core _ _ _ R1 E2)).
     destruct (negb (zeqb vrc ARES_SUCCESS)) eqn:Ev.
-    - apply safe_ret. auto.
+    - apply safe_ret. split; [split|]; auto.
     - assert (Hrq : requeued = false).
       { destruct requeued; auto. apply negb_false_iff in Ev. rewrite Ev in Erq. discriminate. }
       assert (Hl2 : In qo (linked s2)) by (rewrite (ce_linked _ _ E2); auto).
@@ -1056,14 +1416,16 @@ Proof.
       destruct (conn_drop_query_ok s2 co c2 qo I2 Hc2) as [I3 [Ell3 [Hc3 Hsame3]]].
       set (c3 := set_c_queries (remove_nat qo (c_queries c2)) c2) in *.
       set (s3 := store_st co (CConn c3) s2) in *.
+      assert (St3 : Stable s3) by (apply (stable_sim s2 s3 Ell3 (sim_upd_conn _ _ _ _ Hc2) St2)).
       assert (Hl3 : In qo (linked s3)) by (rewrite Ell3; exact Hl2).
       assert (R3 : reading s3 co) by (exists c3; split; auto).
-      destruct (inv_query _ _ I3 _ Hl3) as [q3 [Hq3 _]].
+      destruct (inv_query _ _ I3 _ Hl3) as [q3 Hq3].
       destruct (classify cf a (c_tcp c2)).
       + (* DEdns *)
         destruct (remove_from_conn_ok _ _ _ _ I3 (or_intror eq_refl) Hl3 Hq3) as [s4 [E4 [I4 [F4 _]]]].
-        apply safe_bind. eapply safe_of_run; [exact E4|]. apply safe_ret. split; auto.
-        exact (reading_frame _ _ _ _ R3 F4).
+        apply safe_bind. eapply safe_of_run; [exact E4|]. apply safe_ret. split; [split|]; auto.
+        * exact (stable_frame _ _ _ St3 F4).
+        * exact (reading_frame _ _ _ _ R3 F4).
       + (* DTrunc *)
         apply safe_bind. eapply safe_get_query; [exact (inv_heap _ _ I3)|exact Hq3|].
         apply safe_bind. eapply safe_store; [exact (inv_heap _ _ I3)|exact Hq3|].
@@ -1072,8 +1434,9 @@ Proof.
         set (s4 := store_st qo (CQuery (set_q_tcp true q3)) s3) in *.
         assert (Hl4 : In qo (linked s4)) by (rewrite Ell4; exact Hl3).
         destruct (remove_from_conn_ok _ _ _ _ I4 (or_intror eq_refl) Hl4 Hq4) as [s5 [E5 [I5 [F5 _]]]].
-        apply safe_bind. eapply safe_of_run; [exact E5|]. apply safe_ret. split; auto.
-        exact (reading_frame _ _ _ _ (reading_frame _ _ _ _ R3 F4) F5).
+        apply safe_bind. eapply safe_of_run; [exact E5|]. apply safe_ret. split; [split|]; auto.
+        * exact (stable_frame _ _ _ (stable_frame _ _ _ St3 F4) F5).
+        * exact (reading_frame _ _ _ _ (reading_frame _ _ _ _ R3 F4) F5).
       + (* DServFail *)
         apply safe_bind. apply safe_expect; [left; reflexivity|]. intros s4 E4 Es4.
         apply safe_bind.
@@ -1081,36 +1444,52 @@ Proof.
                            [apply (inv_core _ _ _ E4); auto|rewrite (ce_linked _ _ E4); exact Hl3]|].
         intros rst s5 [I5 F5].
         assert (R5 : reading s5 co) by (exact (reading_frame _ _ _ _ (reading_core _ _ _ R3 E4) F5)).
-        destruct (zeqb rst ARES_SUCCESS); apply safe_ret; auto.
+        assert (St5 : Stable s5) by (exact (stable_frame _ _ _ (stable_core _ _ E4 St3) F5)).
+        destruct (zeqb rst ARES_SUCCESS); apply safe_ret; (split; [split|]; auto).
       + (* DFinal *)
         apply safe_bind. apply safe_expect; [right; left; reflexivity|]. intros s4 E4 Es4.
         apply safe_bind.
         eapply safe_mono; [apply (sp_end_query _ IH qo ARES_SUCCESS _ s4);
                            [apply (inv_core _ _ _ E4); auto|rewrite (ce_linked _ _ E4); exact Hl3]|].
-        intros [] s5 [I5 F5]. apply safe_ret. split; auto.
-        exact (reading_frame _ _ _ _ (reading_core _ _ _ R3 E4) F5). }
+        intros [] s5 [I5 F5]. apply safe_ret. split; [split|]; auto.
+        * exact (stable_frame _ _ _ (stable_core _ _ E4 St3) F5).
+        * exact (reading_frame _ _ _ _ (reading_core _ _ _ R3 E4) F5). }
   destruct requeued.
   - apply safe_bind. apply safe_bind.
     eapply safe_mono; [apply (sp_requeue_query _ IH qo ARES_SUCCESS false true _ s); [apply inv_weaken; exact I|exact Hl]|].
     intros st s1 [I1 F1].
     assert (R1 : reading s1 co) by (apply (reading_frame s s1 [] co); [exists c; auto|exact F1]).
+    assert (St1 : Stable s1) by (exact (stable_frame _ _ _ St F1)).
     destruct (zeqb st ARES_SUCCESS); apply safe_ret; [apply (G (rq ++ [qid]))|apply (G rq)]; auto; discriminate.
   - apply safe_bind. apply safe_ret. apply (G rq); auto. exists c; auto.
 Qed.
 
-Lemma read_loop_ok f n co rq s : Inv s -> reading s co ->
-  safe (read_loop cf f n co rq) s (fun _ s' => Inv s').
+Lemma store_conn_flags_ok2 s co c c' :
+  Inv2 s -> cell_of s co = Some (CConn c) ->
+  c_queries c' = c_queries c -> c_sock c' = c_sock c ->
+  (c_closed c' = true -> ~ In co (st_conns s) /\ c_queries c = []) ->
+  (In co (st_conns s) -> c_closed c' = false) ->
+  let s' := store_st co (CConn c') s in
+  Inv2 s' /\ cell_of s' co = Some (CConn c').
+Proof.
+  intros [I St] Hc E1 E2 H1 H2 s'.
+  destruct (store_conn_flags_ok None s co c c' I Hc E1 E2 H1 H2) as [I1 [_ [Ell [_ Hc1]]]].
+  split; [split; [exact I1|]|exact Hc1]. exact (stable_sim s s' Ell (sim_upd_conn _ _ _ _ Hc) St).
+Qed.
+
+Lemma read_loop_ok f n co rq s : Inv2 s -> reading s co ->
+  safe (read_loop cf f n co rq) s (fun _ s' => Inv2 s').
 Proof.
   pose proof (all_specs f) as IH.
-  revert co rq s. induction n as [|n IHn]; intros co rq s I R; simpl; [apply safe_fail|].
+  revert co rq s. induction n as [|n IHn]; intros co rq s [I St] R; simpl; [apply safe_fail|].
   destruct R as [c [Hc Hrd]].
   apply safe_bind. eapply safe_get_conn; [exact (inv_heap _ _ I)|exact Hc|].
   apply safe_bind. apply safe_peek. apply safe_bind. apply safe_peek2.
   rewrite fx_connread_true.
   (* leaving the loop: reading := false *)
-  assert (Leave : safe (store co (CConn (set_c_reading false c));; ret rq) s (fun _ s' => Inv s')).
+  assert (Leave : safe (store co (CConn (set_c_reading false c));; ret rq) s (fun _ s' => Inv2 s')).
   { apply safe_bind. eapply safe_store; [exact (inv_heap _ _ I)|exact Hc|].
-    destruct (store_conn_flags_ok None s co c (set_c_reading false c) I Hc eq_refl eq_refl) as [I1 _].
+    destruct (store_conn_flags_ok2 s co c (set_c_reading false c) (conj I St) Hc eq_refl eq_refl) as [I1 _].
     - simpl. intros H. exact (inv_closed _ _ I _ _ Hc H).
     - simpl. intros H. destruct (inv_conns _ _ I) as [_ Hcc]. destruct (Hcc _ H) as [c0 [Hc0 Hcl]].
       rewrite Hc in Hc0. inversion Hc0; subst. exact Hcl.
@@ -1122,50 +1501,51 @@ Proof.
     apply safe_bind. apply safe_pop. intros e rest Et.
     set (s1 := set_tape rest s).
     assert (E1 : core_eq s s1) by apply core_eq_set_tape.
-    assert (I1 : Inv s1) by (apply (inv_core _ _ _ E1); auto).
+    assert (I1 : Inv2 s1) by (split; [apply (inv_core _ _ _ E1); auto|apply (stable_core _ _ E1); auto]).
     assert (R1 : reading s1 co) by (apply (reading_core s s1 co); [exists c; auto|exact E1]).
     apply safe_bind. eapply safe_mono; [apply (process_answer_ok f co qid a rq s1 I1 R1)|].
-    intros rq' s2 [I2 [c2 [Hc2 Hrd2]]].
+    intros rq' s2 [[I2 St2] [c2 [Hc2 Hrd2]]].
     apply safe_bind. eapply safe_get_conn; [exact (inv_heap _ _ I2)|exact Hc2|].
     destruct (c_closed c2) eqn:Ecl.
     + destruct (inv_closed _ _ I2 _ _ Hc2 Ecl) as [Hn Hq].
       apply safe_bind. eapply safe_free; [exact (inv_heap _ _ I2)|exact Hc2|].
-      destruct (free_conn_ok s2 co c2 I2 Hc2 Hq Hn) as [I3 _]. apply safe_ret. exact I3.
-    + apply IHn; auto. exists c2; auto.
+      destruct (free_conn_ok s2 co c2 I2 Hc2 Hq Hn) as [I3 [_ [Ell3 _]]]. apply safe_ret. split; [exact I3|].
+      exact (stable_sim s2 _ Ell3 (sim_free_conn _ _ _ Hc2) St2).
+    + apply IHn; [split; auto|]. exists c2; auto.
   - (* TS: a connection error if TX follows *)
     destruct (hd_error (tl (st_tape s))) as [e2|]; [|exact Leave].
     destruct e2; try exact Leave.
     destruct (negb (Nat.eqb sock (c_sock c))); [exact Leave|].
     apply safe_bind. eapply safe_store; [exact (inv_heap _ _ I)|exact Hc|].
-    destruct (store_conn_flags_ok None s co c (set_c_reading false c) I Hc eq_refl eq_refl) as [I1 [_ [_ [_ Hc1]]]].
+    destruct (store_conn_flags_ok2 s co c (set_c_reading false c) (conj I St) Hc eq_refl eq_refl) as [[I1 St1] Hc1].
     { simpl. intros H. exact (inv_closed _ _ I _ _ Hc H). }
     { simpl. intros H. destruct (inv_conns _ _ I) as [_ Hcc]. destruct (Hcc _ H) as [c0 [Hc0 Hcl]].
       rewrite Hc in Hc0. inversion Hc0; subst. exact Hcl. }
     apply safe_bind.
     eapply safe_mono; [apply (sp_handle_conn_error _ IH co true st _ _ I1 Hc1)|].
-    intros [] s2 [I2 _]. apply safe_ret. exact I2.
+    intros [] s2 [I2 F2]. apply safe_ret. split; [exact I2|exact (stable_frame _ _ _ St1 F2)].
 Qed.
 
-Lemma flush_requeue_ok f rq s : Inv s -> safe (flush_requeue cf f rq) s (fun _ s' => Inv s').
+Lemma flush_requeue_ok f rq s : Inv2 s -> safe (flush_requeue cf f rq) s (fun _ s' => Inv2 s').
 Proof.
   pose proof (all_specs f) as IH.
-  revert s. induction rq as [|qid rest IHr]; intros s I; simpl; [apply safe_ret; auto|].
+  revert s. induction rq as [|qid rest IHr]; intros s [I St]; simpl; [apply safe_ret; split; auto|].
   apply safe_bind. apply safe_get. apply safe_bind.
   destruct (lookup qid (st_byqid s)) as [qo|] eqn:Lk.
   - destruct (inv_byqid _ _ I _ _ Lk) as [Hl _].
     apply safe_bind. eapply safe_mono; [apply (sp_send_query _ IH qo s I Hl)|].
-    intros z s1 [I1 _]. apply safe_ret. apply IHr. exact I1.
-  - apply safe_ret. apply IHr. exact I.
+    intros z s1 [I1 F1]. apply safe_ret. apply IHr. split; [exact I1|exact (stable_frame _ _ _ St F1)].
+  - apply safe_ret. apply IHr. split; auto.
 Qed.
 
-Lemma read_answers_ok f co s c : Inv s -> cell_of s co = Some (CConn c) -> In co (st_conns s) ->
-  safe (read_answers cf f co) s (fun _ s' => Inv s').
+Lemma read_answers_ok f co s c : Inv2 s -> cell_of s co = Some (CConn c) -> In co (st_conns s) ->
+  safe (read_answers cf f co) s (fun _ s' => Inv2 s').
 Proof.
-  intros I Hc Hin. unfold read_answers.
+  intros [I St] Hc Hin. unfold read_answers.
   apply safe_bind. eapply safe_get_conn; [exact (inv_heap _ _ I)|exact Hc|].
   rewrite fx_connread_true.
   apply safe_bind. eapply safe_store; [exact (inv_heap _ _ I)|exact Hc|].
-  destruct (store_conn_flags_ok None s co c (set_c_reading true c) I Hc eq_refl eq_refl) as [I1 [_ [_ [_ Hc1]]]].
+  destruct (store_conn_flags_ok2 s co c (set_c_reading true c) (conj I St) Hc eq_refl eq_refl) as [I1 Hc1].
   { simpl. intros H. exact (inv_closed _ _ I _ _ Hc H). }
   { simpl. intros H. destruct (inv_conns _ _ I) as [_ Hcc]. destruct (Hcc _ H) as [c0 [Hc0 Hcl]].
     rewrite Hc in Hc0. inversion Hc0; subst. exact Hcl. }
@@ -1174,24 +1554,24 @@ Proof.
   - intros rq s2 I2. apply flush_requeue_ok. exact I2.
 Qed.
 
-Lemma destroy_loop_ok f n s : Inv s ->
-  safe (destroy_loop_fixed cf f n) s (fun _ s' => Inv s').
+Lemma destroy_loop_ok f n s : Inv2 s ->
+  safe (destroy_loop_fixed cf f n) s (fun _ s' => Inv2 s').
 Proof.
   pose proof (all_specs f) as IH.
-  revert s. induction n as [|n IHn]; intros s I; simpl; [apply safe_fail|].
+  revert s. induction n as [|n IHn]; intros s [I St]; simpl; [apply safe_fail|].
   apply safe_bind. apply safe_get.
-  destruct (st_lists s) as [|[|qo l] r] eqn:El; try (apply safe_ret; exact I).
+  destruct (st_lists s) as [|[|qo l] r] eqn:El; try (apply safe_ret; split; assumption).
   assert (Hl : In qo (linked s)) by (unfold linked; rewrite El; simpl; left; reflexivity).
   apply safe_bind. eapply safe_mono; [apply (sp_complete_query _ IH qo _ s (inv_weaken _ _ I) Hl)|].
-  intros [] s1 [I1 _]. apply IHn. exact I1.
+  intros [] s1 [I1 F1]. apply IHn. split; [exact I1|exact (stable_frame _ _ _ St F1)].
 Qed.
 
-Lemma destroy_conns_ok f n s : Inv s -> safe (destroy_conns cf f n) s (fun _ s' => Inv s').
+Lemma destroy_conns_ok f n s : Inv2 s -> safe (destroy_conns cf f n) s (fun _ s' => Inv2 s').
 Proof.
   pose proof (all_specs f) as IH.
-  revert s. induction n as [|n IHn]; intros s I; simpl; [apply safe_fail|].
+  revert s. induction n as [|n IHn]; intros s [I St]; simpl; [apply safe_fail|].
   apply safe_bind. apply safe_get.
-  destruct (st_conns s) as [|co0 r] eqn:Ec; [apply safe_ret; exact I|].
+  destruct (st_conns s) as [|co0 r] eqn:Ec; [apply safe_ret; split; assumption|].
   apply safe_bind. apply safe_peek.
   destruct (hd_error (st_tape s)) as [e|]; [|apply safe_fail].
   destruct e; try apply safe_fail.
@@ -1200,60 +1580,61 @@ Proof.
   destruct r0 as [co|]; [|apply safe_fail].
   destruct (Hr _ eq_refl) as [Hin [c [Hc Hncl]]].
   apply safe_bind. eapply safe_mono; [apply (sp_close_connection _ IH co ARES_SUCCESS s c I Hc)|].
-  intros [] s1 [I1 _]. apply IHn. exact I1.
+  intros [] s1 [I1 F1]. apply IHn. split; [exact I1|exact (stable_frame _ _ _ St F1)].
 Qed.
 
-Lemma destroy_ok f s : Inv s -> safe (destroy cf f) s (fun _ s' => Inv s').
+Lemma destroy_ok f s : Inv2 s -> safe (destroy cf f) s (fun _ s' => Inv2 s').
 Proof.
-  intros I. unfold destroy.
+  intros [I St]. unfold destroy.
   apply safe_bind. apply safe_modify.
   set (s1 := set_destroying true s).
   assert (E1 : core_eq s s1) by apply core_eq_set_destroying.
-  assert (I1 : Inv s1) by (apply (inv_core _ _ _ E1); auto).
+  assert (I1 : Inv2 s1) by (split; [apply (inv_core _ _ _ E1); auto|apply (stable_core _ _ E1); auto]).
   apply safe_bind. apply safe_get. rewrite fx_unlink_true.
   apply safe_bind. eapply safe_mono; [apply (destroy_loop_ok f f s1 I1)|].
   intros [] s2 I2. apply safe_bind. apply safe_get.
   destruct (negb _); [apply safe_fail|]. apply destroy_conns_ok. exact I2.
 Qed.
 
-Lemma process_writes_ok f socks s : Inv s -> safe (process_writes cf f socks) s (fun _ s' => Inv s').
+Lemma process_writes_ok f socks s : Inv2 s -> safe (process_writes cf f socks) s (fun _ s' => Inv2 s').
 Proof.
   pose proof (all_specs f) as IH.
-  revert s. induction socks as [|sock rest IHr]; intros s I; simpl; [apply safe_ret; exact I|].
+  revert s. induction socks as [|sock rest IHr]; intros s [I St]; simpl; [apply safe_ret; split; assumption|].
   destruct (find_conn_by_sock_ok _ s sock I) as [r0 [E1 Hr]].
   apply safe_bind. eapply safe_of_run; [exact E1|]. apply safe_bind.
-  destruct r0 as [co|]; [|apply safe_ret; apply IHr; exact I].
+  destruct r0 as [co|]; [|apply safe_ret; apply IHr; split; assumption].
   destruct (Hr _ eq_refl) as [Hin [c [Hc Hncl]]].
   apply safe_bind. eapply safe_get_conn; [exact (inv_heap _ _ I)|exact Hc|].
   apply safe_bind. apply safe_pop. intros e rest0 Et. destruct e; try apply safe_fail.
   set (s1 := set_tape rest0 s).
   assert (E2 : core_eq s s1) by apply core_eq_set_tape.
   assert (I1 : Inv s1) by (apply (inv_core _ _ _ E2); auto).
+  assert (St1 : Stable s1) by (apply (stable_core _ _ E2); auto).
   destruct (negb (Nat.eqb sock0 sock)); [apply safe_fail|].
   destruct (zeqb rc ARES_SUCCESS).
-  - apply safe_ret. apply IHr. exact I1.
+  - apply safe_ret. apply IHr. split; assumption.
   - eapply safe_mono; [apply (sp_handle_conn_error _ IH co true rc s1 c I1); rewrite (ce_cell _ _ _ E2); exact Hc|].
-    intros [] s2 [I2 _]. apply IHr. exact I2.
+    intros [] s2 [I2 F2]. apply IHr. split; [exact I2|exact (stable_frame _ _ _ St1 F2)].
 Qed.
 
-Lemma process_reads_ok f socks s : Inv s -> safe (process_reads cf f socks) s (fun _ s' => Inv s').
+Lemma process_reads_ok f socks s : Inv2 s -> safe (process_reads cf f socks) s (fun _ s' => Inv2 s').
 Proof.
-  revert s. induction socks as [|sock rest IHr]; intros s I; simpl; [apply safe_ret; exact I|].
+  revert s. induction socks as [|sock rest IHr]; intros s [I St]; simpl; [apply safe_ret; split; assumption|].
   destruct (find_conn_by_sock_ok _ s sock I) as [r0 [E1 Hr]].
   apply safe_bind. eapply safe_of_run; [exact E1|]. apply safe_bind.
-  destruct r0 as [co|]; [|apply safe_ret; apply IHr; exact I].
+  destruct r0 as [co|]; [|apply safe_ret; apply IHr; split; assumption].
   destruct (Hr _ eq_refl) as [Hin [c [Hc Hncl]]].
-  eapply safe_mono; [apply (read_answers_ok f co s c I Hc Hin)|].
+  eapply safe_mono; [apply (read_answers_ok f co s c (conj I St) Hc Hin)|].
   intros [] s1 I1. apply IHr. exact I1.
 Qed.
 
-Lemma process_timeouts_ok f n s : Inv s -> safe (process_timeouts cf f n) s (fun _ s' => Inv s').
+Lemma process_timeouts_ok f n s : Inv2 s -> safe (process_timeouts cf f n) s (fun _ s' => Inv2 s').
 Proof.
   pose proof (all_specs f) as IH.
-  revert s. induction n as [|n IHn]; intros s I; simpl; [apply safe_fail|].
+  revert s. induction n as [|n IHn]; intros s [I St]; simpl; [apply safe_fail|].
   apply safe_bind. apply safe_peek. apply safe_bind. apply safe_peek2.
-  destruct (hd_error (st_tape s)) as [e|]; [|apply safe_ret; exact I].
-  destruct e; try (apply safe_ret; exact I).
+  destruct (hd_error (st_tape s)) as [e|]; [|apply safe_ret; split; assumption].
+  destruct e; try (apply safe_ret; split; assumption).
   assert (G : safe (let! s0 := get in
                     match timeout_victim (st_tape s0) with
                     | Some qid =>
@@ -1268,7 +1649,7 @@ Proof.
                                  (let! _ := requeue_query cf f qo ARES_ETIMEOUT true false (res ARES_ETIMEOUT) in
                                   process_timeouts cf f n)
                         | None => fail EDESYNC end
-                    | None => fail EDESYNC end) s (fun _ s' => Inv s')).
+                    | None => fail EDESYNC end) s (fun _ s' => Inv2 s')).
   { apply safe_bind. apply safe_get.
     destruct (timeout_victim (st_tape s)) as [qid|]; [|apply safe_fail].
     destruct (lookup qid (st_byqid s)) as [qo|] eqn:Lk; [|apply safe_fail].
@@ -1281,18 +1662,18 @@ Proof.
     apply safe_bind.
     eapply safe_mono; [apply (sp_requeue_query _ IH qo ARES_ETIMEOUT true false _ s1);
                        [apply inv_weaken; apply (inv_core _ _ _ E1); auto|rewrite (ce_linked _ _ E1); exact Hl]|].
-    intros z s2 [I2 _]. apply IHn. exact I2. }
+    intros z s2 [I2 F2]. apply IHn. split; [exact I2|exact (stable_frame _ _ _ (stable_core _ _ E1 St) F2)]. }
   destruct (hd_error (tl (st_tape s))) as [e2|]; [|exact G].
-  destruct e2; try exact G. apply safe_ret. exact I.
+  destruct e2; try exact G. apply safe_ret. split; assumption.
 Qed.
 
-Lemma process_fds_ok f w r s : Inv s -> safe (process_fds cf f w r) s (fun _ s' => Inv s').
+Lemma process_fds_ok f w r s : Inv2 s -> safe (process_fds cf f w r) s (fun _ s' => Inv2 s').
 Proof.
   intros I. pose proof (all_specs f) as IH. unfold process_fds.
   apply safe_bind. eapply safe_mono; [apply process_writes_ok; exact I|]. intros [] s1 I1.
-  apply safe_bind. eapply safe_mono; [apply process_reads_ok; exact I1|]. intros [] s2 I2.
-  apply safe_bind. eapply safe_mono; [apply (sp_check_cleanup _ IH s2 I2)|]. intros [] s3 [I3 _].
-  apply process_timeouts_ok. exact I3.
+  apply safe_bind. eapply safe_mono; [apply process_reads_ok; exact I1|]. intros [] s2 [I2 St2].
+  apply safe_bind. eapply safe_mono; [apply (sp_check_cleanup _ IH s2 I2)|]. intros [] s3 [I3 F3].
+  apply process_timeouts_ok. split; [exact I3|exact (stable_frame _ _ _ St2 F3)].
 Qed.
 
 End Fixed.
@@ -1300,100 +1681,98 @@ End Fixed.
 (* ---------------------------------------------------------------------------------- *)
 (* Histories                                                                           *)
 (* ---------------------------------------------------------------------------------- *)
-Definition nohost_input (i : input) : Prop :=
-  match i with IApi c => nohost_call c | IOnCb _ c => nohost_call c | _ => True end.
-
-Lemma init_inv : Inv init_state.
+Lemma init_inv : Inv2 init_state.
 Proof.
-  constructor; simpl; unfold cell_of, linked, chain; simpl.
-  - split; [intros o c H; discriminate|intros o []].
-  - constructor.
-  - intros qo [].
-  - intros qid qo H; discriminate.
-  - intros qo [].
-  - intros co c qo H; discriminate.
-  - split; [constructor|intros co []].
-  - intros co c H; discriminate.
-  - split; [constructor|intros o []].
-  - intros o h H; discriminate.
-  - intros t l c H; discriminate.
+  split.
+  - constructor; simpl; unfold cell_of, linked, chain; simpl.
+    + split; [intros o c H; discriminate|intros o []].
+    + constructor.
+    + intros qo [].
+    + intros qid qo H; discriminate.
+    + intros qo [].
+    + intros co c qo H; discriminate.
+    + split; [constructor|intros co []].
+    + intros co c H; discriminate.
+    + split; [constructor|intros o []].
+    + constructor.
+      * intros qo o [].
+      * intros o h H. unfold shared_at, cell_of in H. simpl in H. discriminate.
+      * intros o h H. unfold shared_at, cell_of in H. simpl in H. discriminate.
+      * unfold hobjs. simpl. split; [constructor|intros x []].
+  - intros o h H. unfold cell_of in H. simpl in H. discriminate.
 Qed.
 
-Lemma add_script_inv t c s : Inv s -> nohost_call c -> Inv (add_script t c s).
+Lemma add_script_inv t c s : Inv2 s -> Inv2 (add_script t c s).
 Proof.
-  intros I Hc. unfold add_script. destruct (delivered t s); auto.
-  apply (ce_inv None s _ (core_eq_set_scripts _ s)); auto. simpl.
-  intros t' l c' Hl Hin. destruct (Nat.eqb t' t) eqn:E.
-  - inversion Hl; subst. destruct (lookup t (st_scripts s)) as [l0|] eqn:L0.
-    + apply in_app_or in Hin. destruct Hin as [Hin|[<-|[]]]; auto. exact (inv_scripts _ _ I _ _ _ L0 Hin).
-    + destruct Hin as [<-|[]]. auto.
-  - rewrite lookup_remove_key, E in Hl. exact (inv_scripts _ _ I _ _ _ Hl Hin).
+  intros [I St]. unfold add_script. destruct (delivered t s); [split; auto|].
+  split; [apply (ce_inv None s _ (core_eq_set_scripts _ s)); auto|apply (stable_core _ _ (core_eq_set_scripts _ s)); auto].
 Qed.
 
-Lemma step_ok cf fuel i tape s : cf_fix cf = all_fixed -> Inv s -> nohost_input i ->
-  safe (step cf fuel i tape) s (fun _ s' => Inv s').
+Lemma step_ok cf fuel i tape s : cf_fix cf = all_fixed -> Inv2 s ->
+  safe (step cf fuel i tape) s (fun _ s' => Inv2 s').
 Proof.
-  intros Hfix I Hi. pose proof (all_specs cf Hfix fuel) as IH. unfold step.
+  intros Hfix [I St]. pose proof (all_specs cf Hfix fuel) as IH. unfold step.
   apply safe_bind. apply safe_modify.
   set (s1 := set_tape tape s).
   assert (E1 : core_eq s s1) by apply core_eq_set_tape.
   assert (I1 : Inv s1) by (apply (inv_core _ _ _ E1); auto).
-  assert (Fin : forall s2, Inv s2 ->
-            safe (let! s0 := get in match st_tape s0 with [] => ret tt | _ :: _ => fail EDESYNC end) s2 (fun _ s' => Inv s')).
+  assert (St1 : Stable s1) by (apply (stable_core _ _ E1); auto).
+  assert (Fin : forall s2, Inv2 s2 ->
+            safe (let! s0 := get in match st_tape s0 with [] => ret tt | _ :: _ => fail EDESYNC end) s2 (fun _ s' => Inv2 s')).
   { intros s2 I2. apply safe_bind. apply safe_get. destruct (st_tape s2); [apply safe_ret; exact I2|apply safe_fail]. }
   apply safe_bind.
   destruct i as [c|t c|w r|].
   - (* IApi *)
-    assert (Dflt : safe (api cf fuel c) s1 (fun _ s0 => safe (let! s3 := get in match st_tape s3 with [] => ret tt | _ :: _ => fail EDESYNC end) s0 (fun _ s' => Inv s'))).
-    { eapply safe_mono; [apply (sp_api _ _ IH c s1 I1 Hi)|]. intros [] s2 [I2 _]. apply Fin. exact I2. }
+    assert (Dflt : safe (api cf fuel c) s1 (fun _ s0 => safe (let! s3 := get in match st_tape s3 with [] => ret tt | _ :: _ => fail EDESYNC end) s0 (fun _ s' => Inv2 s'))).
+    { eapply safe_mono; [apply (sp_api _ _ IH c s1 I1)|]. intros [] s2 [I2 F2]. apply Fin. split; [exact I2|exact (stable_frame _ _ _ St1 F2)]. }
     destruct c; try exact Dflt.
     (* top-level ares_cancel *)
     apply safe_bind. apply safe_emit.
     set (s2 := set_trace (EvCancelBegin :: st_trace s1) s1).
     assert (E2 : core_eq s1 s2) by apply core_eq_set_trace.
     apply safe_bind. eapply safe_mono; [apply (sp_cancel _ _ IH s2); apply (inv_core _ _ _ E2); auto|].
-    intros [] s3 [I3 _]. apply safe_emit.
-    apply Fin. apply (inv_core _ _ _ (core_eq_set_trace _ s3)); auto.
+    intros [] s3 [I3 F3]. apply safe_emit.
+    apply Fin. split; [apply (inv_core _ _ _ (core_eq_set_trace _ s3)); auto|].
+    apply (stable_core _ _ (core_eq_set_trace _ s3)). exact (stable_frame _ _ _ (stable_core _ _ E2 St1) F3).
   - (* IOnCb *)
-    apply safe_modify. apply Fin. apply add_script_inv; auto.
+    apply safe_modify. apply Fin. apply add_script_inv; split; auto.
   - (* IProc *)
-    eapply safe_mono; [apply (process_fds_ok cf Hfix fuel w r s1 I1)|]. intros [] s2 I2. apply Fin. exact I2.
+    eapply safe_mono; [apply (process_fds_ok cf Hfix fuel w r s1 (conj I1 St1))|]. intros [] s2 I2. apply Fin. exact I2.
   - (* IDestroy *)
     apply safe_bind. apply safe_emit.
     set (s2 := set_trace (EvDestroyBegin :: st_trace s1) s1).
     assert (E2 : core_eq s1 s2) by apply core_eq_set_trace.
-    apply safe_bind. eapply safe_mono; [apply (destroy_ok cf Hfix fuel s2); apply (inv_core _ _ _ E2); auto|].
-    intros [] s3 I3. apply safe_emit.
-    apply Fin. apply (inv_core _ _ _ (core_eq_set_trace _ s3)); auto.
+    apply safe_bind. eapply safe_mono; [apply (destroy_ok cf Hfix fuel s2); split; [apply (inv_core _ _ _ E2); auto|apply (stable_core _ _ E2); auto]|].
+    intros [] s3 [I3 St3]. apply safe_emit.
+    apply Fin. split; [apply (inv_core _ _ _ (core_eq_set_trace _ s3)); auto|apply (stable_core _ _ (core_eq_set_trace _ s3)); auto].
 Qed.
 
-Lemma run_from_ok cf fuel h s : cf_fix cf = all_fixed -> Inv s -> Forall (fun it => nohost_input (fst it)) h ->
-  safe (run_from cf fuel h) s (fun _ s' => Inv s').
+Lemma run_from_ok cf fuel h s : cf_fix cf = all_fixed -> Inv2 s ->
+  safe (run_from cf fuel h) s (fun _ s' => Inv2 s').
 Proof.
-  intros Hfix. revert s. induction h as [|[i tape] rest IHh]; intros s I Hh; simpl; [apply safe_ret; exact I|].
-  inversion Hh; subst.
-  assert (G : safe (step cf fuel i tape;; run_from cf fuel rest) s (fun _ s' => Inv s')).
+  intros Hfix. revert s. induction h as [|[i tape] rest IHh]; intros s I; simpl; [apply safe_ret; exact I|].
+  assert (G : safe (step cf fuel i tape;; run_from cf fuel rest) s (fun _ s' => Inv2 s')).
   { apply safe_bind. eapply safe_mono; [apply (step_ok cf fuel i tape s Hfix I); auto|].
     intros [] s1 I1. apply IHh; auto. }
   destruct i; try exact G.
-  apply safe_bind. eapply safe_mono; [apply (step_ok cf fuel IDestroy tape s Hfix I Logic.I)|].
+  apply safe_bind. eapply safe_mono; [apply (step_ok cf fuel IDestroy tape s Hfix I)|].
   intros [] s1 I1. apply safe_ret. exact I1.
 Qed.
 
-(* C01_no_ub, for histories that do not use getaddrinfo/gethostbyname *)
+(* C01_no_ub: all seven entry points *)
 Theorem run_no_ub cf fuel h final :
-  cf_fix cf = all_fixed -> Forall (fun it => nohost_input (fst it)) h ->
+  cf_fix cf = all_fixed ->
   forall k, run cf fuel h final <> UB k.
 Proof.
-  intros Hfix Hh k. unfold run.
+  intros Hfix k. unfold run.
   assert (S : safe (let! destroyed := run_from cf fuel h in
                     (if destroyed then ret tt else step cf fuel IDestroy final);; emit EvEnd)
                    init_state (fun _ _ => True)).
-  { apply safe_bind. eapply safe_mono; [apply (run_from_ok cf fuel h init_state Hfix init_inv Hh)|].
+  { apply safe_bind. eapply safe_mono; [apply (run_from_ok cf fuel h init_state Hfix init_inv)|].
     intros d s1 I1. apply safe_bind.
     - destruct d.
       + apply safe_ret. apply safe_emit. exact Logic.I.
-      + eapply safe_mono; [apply (step_ok cf fuel IDestroy final s1 Hfix I1 Logic.I)|].
+      + eapply safe_mono; [apply (step_ok cf fuel IDestroy final s1 Hfix I1)|].
         intros [] s2 I2. apply safe_emit. exact Logic.I. }
   unfold safe in S.
   destruct ((let! destroyed := run_from cf fuel h in
